@@ -250,3 +250,1621 @@ Proof.
   destruct (add_balance x req) as [x'|]; simpl in Ew; [|discriminate].
   injection Ew as <-. split; reflexivity.
 Qed.
+
+(* ------------------------------------------------------------------ the other executors leave stakes alone *)
+Lemma find_or_new_sf l a : same_sf l (find_or_new l a).1.
+Proof. unfold find_or_new. destruct (accts l !! a); split; reflexivity. Qed.
+
+Lemma evm_fold_sf (xs : list (addr * Z * Z)) l :
+  same_sf l (foldl (λ l x, let '(a, bal, nonce) := x in
+       let old := default acct0 (accts l !! a) in
+       set_acct l a {| a_nonce := nonce; a_bal := bal; a_code := a_code old; a_name := a_name old; a_doc := a_doc old |}) l xs).
+Proof.
+  revert l; induction xs as [|[[a bal] nonce] xs IH]; intros l; simpl; [apply same_sf_refl|].
+  eapply same_sf_trans; [|apply IH]. split; reflexivity.
+Qed.
+
+Lemma evm_execute_sf l t l' g : evm_execute l t = Ok (l', g) → same_sf l l'.
+Proof.
+  unfold evm_execute. destruct (t_evm t) as [e|]; [|discriminate].
+  destruct (negb (e_ok e)); [discriminate|]. intros [= <- _].
+  destruct (e_created e) as [c|].
+  - eapply same_sf_trans; [apply evm_fold_sf | split; reflexivity].
+  - apply evm_fold_sf.
+Qed.
+
+Lemma gov_execute_sf s l t l' : gov_execute s l t = Ok l' → same_sf l l'.
+Proof.
+  unfold gov_execute. destruct (t_type t =? TRX_PROPOSAL).
+  - destruct (t_payload t); try discriminate. intros [= <-]. split; reflexivity.
+  - destruct (t_payload t) as [| | | |ph choice| |]; try discriminate.
+    destruct (props l !! ph) as [p|]; [|discriminate].
+    destruct (prop_vote p (t_from t) choice); [|discriminate]. intros [= <-]. split; reflexivity.
+Qed.
+
+Lemma acct_execute_sf l t l' : acct_execute l t = Ok l' → same_sf l l'.
+Proof.
+  unfold acct_execute. destruct (accts l !! t_from t) as [sender|]; [|discriminate].
+  destruct (accts l !! t_to t) as [receiver|]; [|discriminate].
+  destruct (t_type t =? TRX_TRANSFER).
+  - destruct (sub_balance sender (t_amount t)) as [sender'|]; [|discriminate].
+    destruct (add_balance _ (t_amount t)) as [recv'|]; [|discriminate].
+    intros [= <-]. split; reflexivity.
+  - destruct (t_payload t); try discriminate. intros [= <-]. split; reflexivity.
+Qed.
+
+Lemma cv0_sigok g t : common_validation0 g t = None → t_sigok t = true.
+Proof.
+  unfold common_validation0.
+  repeat match goal with |- (if ?c then _ else _) = None → _ => destruct c eqn:?; [discriminate|] end.
+  intros _. match goal with H : negb (t_sigok t) = false |- _ => apply negb_false_iff in H; exact H end.
+Qed.
+
+(* what a delivery can do to the stake ledgers: nothing, or what stake_execute did on a state
+   with the same height and parameters; execution is reached only with a valid signature *)
+Lemma deliver_frame s t s' r : deliver s t = (s', r) →
+  committed s' = committed s ∧ gparams s' = gparams s ∧ newparams s' = newparams s ∧
+  b_height (bctx s') = b_height (bctx s) ∧ last_height s' = last_height s ∧
+  (same_sf (work s) (work s') ∨
+   ∃ s2 l l', t_sigok t = true ∧ gparams s2 = gparams s ∧ b_height (bctx s2) = b_height (bctx s) ∧
+      same_sf (work s) l ∧ stake_execute s2 l t = Ok l' ∧ same_sf l' (work s')).
+Proof.
+  unfold deliver.
+  destruct (accts (work s) !! t_from t) as [sender|] eqn:Es.
+  2:{ intros [= <- <-]. repeat (split; [reflexivity|]). left; apply same_sf_refl. }
+  cbv zeta.
+  destruct (find_or_new (work (with_bctx s _)) (t_to t)) as [l0 receiver] eqn:Ef.
+  assert (Hl0 : same_sf (work s) l0).
+  { pose proof (find_or_new_sf (work s) (t_to t)) as H. simpl in Ef. rewrite Ef in H. exact H. }
+  destruct (common_validation0 (gparams s) t) as [e|] eqn:Ev0.
+  { intros [= <- <-]. repeat (split; [reflexivity|]). left; exact Hl0. }
+  destruct (common_validation1 sender t) as [e|] eqn:Ev1.
+  { intros [= <- <-]. repeat (split; [reflexivity|]). left; exact Hl0. }
+  pose proof (cv0_sigok _ _ Ev0) as Hsig.
+  match goal with |- match ?v with Ok _ => _ | Err _ => _ | Panic _ => _ end = _ → _ =>
+    destruct v as [lim'|e|p] eqn:Eval end.
+  2:{ intros [= <- <-]. repeat (split; [reflexivity|]). left; exact Hl0. }
+  2:{ intros [= <- <-]. repeat (split; [reflexivity|]). left; exact Hl0. }
+  clear Eval.
+  match goal with |- (if ?c then _ else _) = _ → _ => destruct c eqn:Epath end.
+  { (* EVM path *)
+    match goal with |- match ?v with Ok _ => _ | Err _ => _ | Panic _ => _ end = _ → _ =>
+      destruct v as [[l' gas]|e|p] eqn:Eevm end.
+    - intros [= <- <-]. repeat (split; [reflexivity|]). left.
+      eapply same_sf_trans; [exact Hl0 | eapply evm_execute_sf; exact Eevm].
+    - intros [= <- <-]. repeat (split; [reflexivity|]). left; exact Hl0.
+    - intros [= <- <-]. repeat (split; [reflexivity|]). left; exact Hl0. }
+  match goal with |- match ?v with Ok _ => _ | Err _ => _ | Panic _ => _ end = _ → _ =>
+    destruct v as [l'|e|p] eqn:Eexec end.
+  2:{ intros [= <- <-]. repeat (split; [reflexivity|]). left; exact Hl0. }
+  2:{ intros [= <- <-]. repeat (split; [reflexivity|]). left; exact Hl0. }
+  (* the executor's effect *)
+  assert (Hexec : same_sf (work s) l' ∨
+     ∃ s2 l, gparams s2 = gparams s ∧ b_height (bctx s2) = b_height (bctx s) ∧
+             same_sf (work s) l ∧ stake_execute s2 l t = Ok l').
+  { destruct ((t_type t =? TRX_PROPOSAL) || (t_type t =? TRX_VOTING)).
+    - left. eapply same_sf_trans; [exact Hl0 | eapply gov_execute_sf; exact Eexec].
+    - destruct ((t_type t =? TRX_TRANSFER) || (t_type t =? TRX_SETDOC)).
+      + left. eapply same_sf_trans; [exact Hl0 | eapply acct_execute_sf; exact Eexec].
+      + right. eexists _, _. split; [|split; [|split; [exact Hl0 | exact Eexec]]]; reflexivity. }
+  clear Eexec.
+  assert (Hfin : ∀ lf, same_sf l' lf →
+     same_sf (work s) lf ∨ ∃ s2 l l', t_sigok t = true ∧ gparams s2 = gparams s ∧
+        b_height (bctx s2) = b_height (bctx s) ∧ same_sf (work s) l ∧ stake_execute s2 l t = Ok l' ∧ same_sf l' lf).
+  { intros lf Hlf. destruct Hexec as [H | (s2 & l & H1 & H2 & H3 & H4)].
+    - left. eapply same_sf_trans; eassumption.
+    - right. exists s2, l, l'. auto 10. }
+  destruct (accts l' !! t_from t) as [snd'|] eqn:Esnd.
+  2:{ intros [= <- <-]. repeat (split; [reflexivity|]). left; exact Hl0. }
+  destruct (sub_balance snd' (fee_of t)) as [snd''|] eqn:Efee.
+  - intros [= <- <-]. repeat (split; [reflexivity|]). apply Hfin. split; reflexivity.
+  - intros [= <- <-]. repeat (split; [reflexivity|]). apply Hfin. split; reflexivity.
+Qed.
+
+(* ------------------------------------------------------------------ dels_ok is preserved *)
+Definition dmap_ok (D : gmap addr delegatee) : Prop := ∀ a d, D !! a = Some d → delegatee_ok a d.
+
+Lemma dmap_ok_insert D a d : dmap_ok D → delegatee_ok a d → dmap_ok (<[a := d]> D).
+Proof.
+  intros H Hd b e. destruct (decide (a = b)) as [<-|Hne].
+  - rewrite lookup_insert. intros [= <-]. exact Hd.
+  - rewrite lookup_insert_ne by assumption. apply H.
+Qed.
+Lemma dmap_ok_delete D a : dmap_ok D → dmap_ok (delete a D).
+Proof. intros H b e Hl. apply lookup_delete_Some in Hl as [_ Hl]. eapply H; eauto. Qed.
+
+Lemma unstake_result_ok D F a d hs s0 R :
+  dmap_ok D → D !! a = Some d → dmap_ok (unstake_result D F a d hs s0 R).1.
+Proof.
+  intros HD Hd. unfold unstake_result; cbv zeta; simpl.
+  pose proof (del_stake_ok a d hs (HD _ _ Hd)) as H1.
+  destruct (d_total _ =? 0); [apply dmap_ok_delete; assumption|].
+  apply dmap_ok_insert; [assumption|].
+  destruct (d_self (del_stake d hs) =? 0) eqn:Es; [|assumption].
+  apply Z.eqb_eq in Es. apply del_all_stakes_ok; assumption.
+Qed.
+
+(* the call-site fact asked about: after a forced release the emptied delegatee has total 0
+   and is therefore deleted, so the stale self power never survives *)
+Lemma unstake_forced_deleted D F a d hs s0 R :
+  delegatee_ok a d → d_self (del_stake d hs) = 0 →
+  (unstake_result D F a d hs s0 R).1 = delete a D.
+Proof.
+  intros Hd Hs. unfold unstake_result; cbv zeta; simpl.
+  rewrite Hs; simpl.
+  destruct (del_stake_ok a d hs Hd) as (_ & Ht & _).
+  replace (d_total (del_stake d hs) - sum_power (d_stakes (del_stake d hs))) with 0 by lia.
+  reflexivity.
+Qed.
+
+Lemma stake_execute_ok s l t l' : stake_execute s l t = Ok l' → dels_ok l → dels_ok l'.
+Proof.
+  intros H Hok. apply stake_execute_inv in H as [(Hty & d & Hd & HD & _) | [(Hty & d & hs & b & s0 & Hd & _ & _ & _ & HD & _) | (_ & _ & HD & _)]].
+  - unfold dels_ok. rewrite HD. apply dmap_ok_insert; [exact Hok|].
+    apply add_stake_ok; [|reflexivity].
+    destruct Hd as [Hd | (_ & _ & ->)]; [eapply Hok; eassumption | apply new_delegatee_ok].
+  - unfold dels_ok. rewrite HD. apply unstake_result_ok; assumption.
+  - eapply dels_ok_same; eassumption.
+Qed.
+
+Lemma deliver_dels_ok s t : dels_ok (work s) → dels_ok (work (deliver s t).1).
+Proof.
+  intros Hok. destruct (deliver s t) as [s' r] eqn:E. simpl.
+  apply deliver_frame in E as (_ & _ & _ & _ & _ & [[HD _] | (s2 & l & l' & _ & _ & _ & [HD _] & Hex & [HD' _])]).
+  - eapply dels_ok_same; eassumption.
+  - eapply dels_ok_same; [exact HD'|]. eapply stake_execute_ok; [exact Hex|]. eapply dels_ok_same; eassumption.
+Qed.
+
+(* ------------------------------------------------------------------ begin_block, as a closure principle *)
+Lemma gov_punish_inner_sf a ratio (targets : list (hash * proposal)) l :
+  same_sf l (foldl (λ l kp, match props l !! kp.1 with
+                   | Some p => set_props l (<[kp.1 := (prop_punish p a ratio).1]> (props l))
+                   | None => l end) l targets).
+Proof.
+  revert l. induction targets as [|kp targets IH2]; intros l1; simpl; [apply same_sf_refl|].
+  eapply same_sf_trans; [|apply IH2].
+  destruct (props l1 !! kp.1); [split; reflexivity | apply same_sf_refl].
+Qed.
+
+Lemma gov_punish_sf l ratio evi : same_sf l (gov_punish l ratio evi).
+Proof.
+  unfold gov_punish. revert l. induction evi as [|a evi IH]; intros l; simpl; [apply same_sf_refl|].
+  eapply same_sf_trans; [|apply IH]. apply gov_punish_inner_sf.
+Qed.
+
+Lemma stake_punish_ind (P : ledgers → Prop) l ratio evi :
+  P l →
+  (∀ l a d, a ∈ evi → P l → dels l !! a = Some d → P (set_dels l (<[a := (slash_all d ratio).1]> (dels l)))) →
+  P (stake_punish l ratio evi).
+Proof.
+  intros Hl Hstep. unfold stake_punish.
+  assert (Hgen : ∀ evi' l, (∀ a, a ∈ evi' → a ∈ evi) → P l →
+     P (foldl (λ l a, match dels l !! a with
+                      | Some d => set_dels l (<[a := (slash_all d ratio).1]> (dels l))
+                      | None => l end) l evi')).
+  { induction evi' as [|a evi' IH]; intros l1 Hsub Hl1; simpl; [exact Hl1|].
+    apply IH; [intros x Hx; apply Hsub; right; exact Hx|].
+    destruct (dels l1 !! a) as [d|] eqn:E; [apply Hstep; [apply Hsub; left | assumption | assumption] | exact Hl1]. }
+  apply Hgen; auto.
+Qed.
+
+Definition jail (l : ledgers) (a : addr) (d : delegatee) (R : Z) : ledgers :=
+  set_dels (set_frozen l (freeze_all (frozen l) R (d_stakes d))) (delete a (dels l)).
+
+Lemma foldl_res_stuck_err {A B} (f : res A → B → res A) (xs : list B) e :
+  (∀ b, f (Err e) b = Err e) → foldl f (Err e) xs = Err e.
+Proof. intros H. induction xs as [|x xs IH]; simpl; [reflexivity | rewrite H; exact IH]. Qed.
+Lemma foldl_res_stuck_panic {A B} (f : res A → B → res A) (xs : list B) p :
+  (∀ b, f (Panic p) b = Panic p) → foldl f (Panic p) xs = Panic p.
+Proof. intros H. induction xs as [|x xs IH]; simpl; [reflexivity | rewrite H; exact IH]. Qed.
+
+Lemma process_votes_ind (P : ledgers → Prop) s l h votes l' iss :
+  process_votes s l h votes = Ok (l', iss) → P l →
+  (∀ l rw, P l → P (set_rewards l rw)) →
+  (∀ l a d m, P l → dels l !! a = Some d → P (set_dels l (<[a := with_marks d m]> (dels l)))) →
+  (∀ l a d, (∃ pw, (a, pw, false) ∈ votes) → P l → dels l !! a = Some d →
+     P (jail l a d (h + g_lazyRewardBlocks (gparams s)))) →
+  P l'.
+Proof.
+  intros Hpv Hl Hrw Hmk Hjl. unfold process_votes in Hpv.
+  destruct (ledgers_at s (hgt_of_power h)) as [old|]; [|discriminate].
+  match type of Hpv with foldl ?f _ _ = _ => set (step := f) in * end.
+  assert (Hgen : ∀ votes' l i0, (∀ v, v ∈ votes' → v ∈ votes) →
+     foldl step (Ok (l, i0)) votes' = Ok (l', iss) → P l → P l').
+  2:{ eapply Hgen; [|exact Hpv|exact Hl]. auto. }
+  clear Hpv Hl l.
+  induction votes' as [|[[a pw] signed] votes' IH]; intros l i0 Hsub.
+  { simpl. intros [= <- _] Hl; exact Hl. }
+  assert (IH' : ∀ l i0, foldl step (Ok (l, i0)) votes' = Ok (l', iss) → P l → P l').
+  { intros l1 i1. apply IH. intros v Hv; apply Hsub; right; exact Hv. }
+  clear IH.
+  change (foldl step (step (Ok (l, i0)) (a, pw, signed)) votes' = Ok (l', iss) → P l → P l').
+  assert (Hstuck : ∀ r : res (ledgers * Z), (∀ x, r ≠ Ok x) → foldl step r votes' = Ok (l', iss) → False).
+  { intros [x|e|p] Hx; [destruct (Hx x); reflexivity| |].
+    - rewrite foldl_res_stuck_err by reflexivity. discriminate.
+    - rewrite foldl_res_stuck_panic by reflexivity. discriminate. }
+  unfold step at 2.
+  destruct signed.
+  - destruct (dels old !! a) as [d|]; [|apply IH'].
+    destruct (negb (d_total d =? pw)); [apply IH'|].
+    destruct (reward_to (gparams s) h (rewards l) d) as [[rw iss']|e|p].
+    + intros H Hl. eapply IH'; [exact H | apply Hrw, Hl].
+    + intros H. exfalso. eapply Hstuck; [|exact H]. discriminate.
+    + intros H. exfalso. eapply Hstuck; [|exact H]. discriminate.
+  - destruct (dels l !! a) as [d|] eqn:Ed; [|apply IH'].
+    destruct (count_in_window _ _ _) as [cnt m2] eqn:Ec.
+    destruct (_ <? g_minSignedBlocks (gparams s)).
+    + intros H Hl. eapply IH'; [exact H|].
+      pose proof (Hmk l a d m2 Hl Ed) as H1.
+      apply (Hjl _ a (with_marks d m2)) in H1; [exact H1 | exists pw; apply Hsub; left|].
+      rewrite dels_set_dels, lookup_insert; reflexivity.
+    + intros H Hl. eapply IH'; [exact H|]. apply Hmk; assumption.
+Qed.
+
+(* [P] must only look at the stake ledgers *)
+Lemma begin_block_ind (P : ledgers → Prop) s hd :
+  (∀ l l', same_sf l l' → P l → P l') →
+  P (work s) →
+  (∀ l a d, a ∈ h_evidence hd → P l → dels l !! a = Some d →
+     P (set_dels l (<[a := (slash_all d (g_slashRatio (gparams s))).1]> (dels l)))) →
+  (∀ l a d m, P l → dels l !! a = Some d → P (set_dels l (<[a := with_marks d m]> (dels l)))) →
+  (∀ l a d, (∃ pw, (a, pw, false) ∈ h_votes hd) → P l → dels l !! a = Some d →
+     P (jail l a d (h_height hd + g_lazyRewardBlocks (gparams s)))) →
+  P (work (begin_block s hd).1).
+Proof.
+  intros Hsf Hl Hsl Hmk Hjl. unfold begin_block.
+  destruct (negb (h_height hd =? last_height s + 1)); [exact Hl|]. cbv zeta.
+  assert (H2 : P (stake_punish (gov_punish (work s) (g_slashRatio (gparams s)) (h_evidence hd))
+                  (g_slashRatio (gparams s)) (h_evidence hd))).
+  { apply stake_punish_ind; [|exact Hsl]. eapply Hsf; [apply gov_punish_sf | exact Hl]. }
+  destruct (h_votes hd) as [|v votes] eqn:Ev; [exact H2|].
+  match goal with |- context [process_votes ?s1 ?l2 ?h ?vs] => destruct (process_votes s1 l2 h vs) as [[l3 iss]|e|pn] eqn:Epv end;
+    [|exact H2|exact H2].
+  simpl. eapply process_votes_ind; [exact Epv | exact H2 | | exact Hmk | exact Hjl].
+  intros l rw Hp. eapply Hsf; [|exact Hp]. split; reflexivity.
+Qed.
+
+Lemma begin_block_ctl s hd : committed (begin_block s hd).1 = committed s ∧ gparams (begin_block s hd).1 = gparams s.
+Proof.
+  unfold begin_block. destruct (negb _); [split; reflexivity|]. cbv zeta.
+  destruct (h_votes hd); [split; reflexivity|].
+  destruct (process_votes _ _ _ _) as [[l3 iss]|e|pn]; split; reflexivity.
+Qed.
+
+Lemma jail_dels_ok l a d R : dels_ok l → dels_ok (jail l a d R).
+Proof. intros H. unfold jail. apply (dmap_ok_delete (dels l) a H). Qed.
+
+Lemma begin_block_dels_ok s hd : dels_ok (work s) → dels_ok (work (begin_block s hd).1).
+Proof.
+  intros Hok. apply begin_block_ind.
+  - intros l l' [HD _]. apply dels_ok_same; assumption.
+  - exact Hok.
+  - intros l a d _ Hl Hd. apply dels_ok_insert; [exact Hl|]. apply slash_all_ok. eapply Hl; eassumption.
+  - intros l a d m Hl Hd. apply dels_ok_insert; [exact Hl|]. apply with_marks_ok. eapply Hl; eassumption.
+  - intros l a d _ Hl _. apply jail_dels_ok; assumption.
+Qed.
+
+(* ------------------------------------------------------------------ end_block *)
+Definition same_asf (l l' : ledgers) : Prop := accts l' = accts l ∧ dels l' = dels l ∧ frozen l' = frozen l.
+Lemma same_asf_refl l : same_asf l l. Proof. repeat split. Qed.
+Lemma same_asf_trans l1 l2 l3 : same_asf l1 l2 → same_asf l2 l3 → same_asf l1 l3.
+Proof. intros (?&?&?) (?&?&?); repeat split; congruence. Qed.
+
+Lemma freeze_proposals_asf base l h l' : freeze_proposals base l h = Ok l' → same_asf l l'.
+Proof.
+  unfold freeze_proposals. generalize (sorted_items (props base)) as items.
+  intros items. revert l. induction items as [|kp items IH]; intros l; simpl.
+  { intros [= <-]; apply same_asf_refl. }
+  destruct (p_end kp.2 <? h); [|apply IH].
+  destruct (props l !! kp.1); [|rewrite foldl_res_stuck_panic by reflexivity; discriminate].
+  destruct (update_major kp.2) as [p'|e|pn].
+  - destruct (p_major p'); intros H; apply IH in H; (eapply same_asf_trans; [|exact H]); repeat split.
+  - rewrite foldl_res_stuck_err by reflexivity; discriminate.
+  - rewrite foldl_res_stuck_panic by reflexivity; discriminate.
+Qed.
+
+Lemma apply_proposals_asf s base l h l' np : apply_proposals s base l h = Ok (l', np) → same_asf l l'.
+Proof.
+  unfold apply_proposals. generalize (sorted_items (fprops base)) as items. generalize (newparams s) as np0.
+  intros np0 items. revert l np0. induction items as [|kp items IH]; intros l np0; simpl.
+  { intros [= <- _]; apply same_asf_refl. }
+  destruct (p_apply kp.2 <=? h); [|apply IH].
+  destruct (fprops l !! kp.1); [|rewrite foldl_res_stuck_panic by reflexivity; discriminate].
+  destruct (p_major kp.2) as [o|].
+  - destruct (p_opttype kp.2 =? PROPOSAL_GOVPARAMS).
+    + destruct (o_params o) as [newp|]; [|rewrite foldl_res_stuck_panic by reflexivity; discriminate].
+      intros H; apply IH in H; (eapply same_asf_trans; [|exact H]); repeat split.
+    + intros H; apply IH in H; (eapply same_asf_trans; [|exact H]); repeat split.
+  - intros H; apply IH in H; (eapply same_asf_trans; [|exact H]); repeat split.
+Qed.
+
+(* Account.AddBalance's effect *)
+Definition credit (x : account) (amt : Z) : account :=
+  {| a_nonce := a_nonce x; a_bal := add256 (a_bal x) amt; a_code := a_code x; a_name := a_name x; a_doc := a_doc x |}.
+Lemma add_balance_credit x amt x' : add_balance x amt = Some x' → x' = credit x amt.
+Proof. unfold add_balance. destruct (sign256 amt <? 0); [discriminate|]. intros [= <-]; reflexivity. Qed.
+
+Lemma acct_of_set_acct l a x b : acct_of (set_acct l a x) b = if decide (a = b) then x else acct_of l b.
+Proof.
+  unfold acct_of; simpl. destruct (decide (a = b)) as [<-|Hne].
+  - rewrite lookup_insert; reflexivity.
+  - rewrite lookup_insert_ne by assumption; reflexivity.
+Qed.
+
+Lemma end_block_inv s s' r : end_block s = (s', r) →
+  (s' = s ∧ ∀ ups, r ≠ Ok ups) ∨
+  ∃ ups l3, r = Ok ups ∧ same_sf (work s) l3 ∧
+    (∀ a, b_proposer (bctx s) ≠ Some a → acct_of l3 a = acct_of (work s) a) ∧
+    (∀ pa, b_proposer (bctx s) = Some pa →
+       acct_of l3 pa = if 0 <? sign256 (b_feesum (bctx s)) then credit (acct_of (work s) pa) (b_feesum (bctx s))
+                       else acct_of (work s) pa) ∧
+    unfreeze (base_of s) l3 (b_height (bctx s)) = Ok (work s') ∧
+    committed s' = committed s ∧ gparams s' = gparams s ∧ bctx s' = bctx s ∧ last_height s' = last_height s.
+Proof.
+  unfold end_block.
+  destruct (freeze_proposals (base_of s) (work s) (b_height (bctx s))) as [l1|e|pn] eqn:E1;
+    [|intros [= <- <-]; left; split; [reflexivity | discriminate]|intros [= <- <-]; left; split; [reflexivity | discriminate]].
+  destruct (apply_proposals s (base_of s) l1 (b_height (bctx s))) as [[l2 np]|e|pn] eqn:E2;
+    [|intros [= <- <-]; left; split; [reflexivity | discriminate]|intros [= <- <-]; left; split; [reflexivity | discriminate]].
+  assert (H2 : same_asf (work s) l2).
+  { eapply same_asf_trans; [eapply freeze_proposals_asf; exact E1 | eapply apply_proposals_asf; exact E2]. }
+  destruct H2 as (HA & HD & HF).
+  match goal with |- match ?x with Some _ => _ | None => _ end = _ → _ => destruct x as [l3|] eqn:E3 end;
+    [|intros [= <- <-]; left; split; [reflexivity | discriminate]].
+  destruct (unfreeze (base_of s) l3 (b_height (bctx s))) as [l4|e|pn] eqn:E4;
+    [|intros [= <- <-]; left; split; [reflexivity | discriminate]|intros [= <- <-]; left; split; [reflexivity | discriminate]].
+  destruct (g_maxValidatorCnt (gparams s) <? 0); [intros [= <- <-]; left; split; [reflexivity | discriminate]|].
+  intros [= <- <-]. right. eexists _, l3. split; [reflexivity|].
+  assert (Hacct : ∀ a, acct_of l2 a = acct_of (work s) a) by (intros a; unfold acct_of; rewrite HA; reflexivity).
+  destruct (b_proposer (bctx s)) as [pa|] eqn:Ep.
+  - destruct (0 <? sign256 (b_feesum (bctx s))) eqn:Efee.
+    + destruct (add_balance _ _) as [x|] eqn:Ex in E3; [|discriminate]. injection E3 as <-.
+      apply add_balance_credit in Ex. split; [split; simpl; assumption|]. split; [|split].
+      * intros a Ha. rewrite acct_of_set_acct. destruct (decide (pa = a)) as [->|]; [congruence|apply Hacct].
+      * intros pa' [= <-]. rewrite acct_of_set_acct. destruct (decide (pa = pa)); [|congruence].
+        rewrite Ex. unfold acct_of. rewrite HA. reflexivity.
+      * simpl. auto.
+    + injection E3 as <-. split; [split; assumption|]. split; [|split].
+      * intros a _; apply Hacct.
+      * intros pa' _; apply Hacct.
+      * simpl; auto.
+  - injection E3 as <-. split; [split; assumption|]. split; [|split].
+    + intros a _; apply Hacct.
+    + intros pa' [=].
+    + simpl; auto.
+Qed.
+
+(* ------------------------------------------------------------------ unfreeze (C12: the refund) *)
+Definition matured (h : Z) (kp : hash * stake) : bool := s_refund kp.2 <=? h.
+(* the amounts credited to [a], in iteration order *)
+Definition refunds_to (h : Z) (a : addr) (items : list (hash * stake)) : list Z :=
+  (λ kp : hash * stake, power_to_amount (s_power kp.2)) <$>
+    List.filter (λ kp : hash * stake, matured h kp && (s_from kp.2 =? a)%N) items.
+
+Definition unfreeze_step (h : Z) (acc : res ledgers) (kp : hash * stake) : res ledgers :=
+  match acc with
+  | Ok l =>
+      let s0 := kp.2 in
+      if s_refund s0 <=? h then
+        match acct_reward l (s_from s0) (power_to_amount (s_power s0)) with
+        | None => Panic P_ENDBLOCK
+        | Some l1 => Ok (set_frozen l1 (delete kp.1 (frozen l1)))
+        end
+      else Ok l
+  | x => x end.
+Lemma unfreeze_unfold base l h : unfreeze base l h = foldl (unfreeze_step h) (Ok l) (sorted_items (frozen base)).
+Proof. reflexivity. Qed.
+
+Lemma unfreeze_list_spec h items : ∀ l l', foldl (unfreeze_step h) (Ok l) items = Ok l' →
+  dels l' = dels l ∧
+  (∀ k, frozen l' !! k =
+        if existsb (λ kp : hash * stake, (kp.1 =? k)%N && matured h kp) items then None else frozen l !! k) ∧
+  (∀ a, acct_of l' a = foldl credit (acct_of l a) (refunds_to h a items)).
+Proof.
+  induction items as [|kp items IH]; intros l l'; simpl.
+  { intros [= <-]. split; [reflexivity|]. split; reflexivity. }
+  unfold refunds_to; simpl. fold (matured h kp).
+  destruct (matured h kp) eqn:Em; simpl.
+  2:{ intros H. destruct (IH _ _ H) as (H1 & H2 & H3). split; [exact H1|]. split.
+      - intros k. rewrite andb_false_r; simpl. apply H2.
+      - exact H3. }
+  unfold acct_reward.
+  destruct (accts l !! s_from kp.2) as [x|] eqn:Ex; simpl;
+    [|rewrite foldl_res_stuck_panic by reflexivity; discriminate].
+  destruct (add_balance x _) as [x'|] eqn:Eadd; simpl;
+    [|rewrite foldl_res_stuck_panic by reflexivity; discriminate].
+  apply add_balance_credit in Eadd.
+  intros H. destruct (IH _ _ H) as (H1 & H2 & H3). clear IH H.
+  split; [exact H1|]. split.
+  - intros k. rewrite H2; simpl. rewrite andb_true_r.
+    destruct (kp.1 =? k)%N eqn:Ek; simpl.
+    + apply N.eqb_eq in Ek. subst k. destruct (existsb _ items); [reflexivity | apply lookup_delete].
+    + apply N.eqb_neq in Ek. rewrite lookup_delete_ne by assumption. reflexivity.
+  - intros a. rewrite H3. fold (refunds_to h a items).
+    replace (acct_of (set_frozen (set_acct l (s_from kp.2) x') _) a) with (acct_of (set_acct l (s_from kp.2) x') a) by reflexivity.
+    rewrite acct_of_set_acct.
+    destruct (s_from kp.2 =? a)%N eqn:Ea; simpl.
+    + apply N.eqb_eq in Ea. destruct (decide (s_from kp.2 = a)); [|contradiction].
+      subst a. unfold acct_of. rewrite Ex; simpl. rewrite Eadd. reflexivity.
+    + apply N.eqb_neq in Ea. destruct (decide (s_from kp.2 = a)); [contradiction|]. reflexivity.
+Qed.
+
+(* ------------------------------------------------------------------ (A) the invariant on every reachable state *)
+Lemma end_block_dels_ok s : dels_ok (work s) → dels_ok (work (end_block s).1).
+Proof.
+  intros Hok. destruct (end_block s) as [s' r] eqn:E; simpl.
+  apply end_block_inv in E as [[-> _] | (ups & l3 & _ & [HD _] & _ & _ & Hun & _)]; [exact Hok|].
+  rewrite unfreeze_unfold in Hun. apply unfreeze_list_spec in Hun as (HD' & _).
+  eapply dels_ok_same; [exact HD'|]. eapply dels_ok_same; eassumption.
+Qed.
+
+Lemma commit_work s : work (commit s) = work s. Proof. reflexivity. Qed.
+
+Definition genesis_stake (v : addr * Z) : stake :=
+  {| s_from := v.1; s_to := v.1; s_hash := 0%N; s_start := 1; s_refund := 0; s_power := v.2 |}.
+
+Lemma init_holders_sf (hs : list (addr * Z)) l :
+  same_sf l (foldl (λ l h, set_acct l h.1 {| a_nonce := 0; a_bal := h.2; a_code := false; a_name := 0%N; a_doc := 0%N |}) l hs).
+Proof.
+  revert l; induction hs as [|h hs IH]; intros l; simpl; [apply same_sf_refl|].
+  eapply same_sf_trans; [|apply IH]. split; reflexivity.
+Qed.
+Lemma init_valaccts_sf (vs : list (addr * Z)) l : same_sf l (foldl (λ l v, (find_or_new l v.1).1) l vs).
+Proof.
+  revert l; induction vs as [|v vs IH]; intros l; simpl; [apply same_sf_refl|].
+  eapply same_sf_trans; [apply find_or_new_sf | apply IH].
+Qed.
+
+Lemma init_chain_pre_sf g : ∃ l2, same_sf (empty_ledgers (gen_params g)) l2 ∧
+  work (init_chain g) =
+    foldl (λ l v, set_dels l (<[v.1 := add_stake (new_delegatee v.1) (genesis_stake v)]> (dels l))) l2 (gen_validators g).
+Proof.
+  eexists. split; [|reflexivity].
+  eapply same_sf_trans; [apply init_holders_sf | apply init_valaccts_sf].
+Qed.
+
+Lemma genesis_delegatee_ok v : delegatee_ok v.1 (add_stake (new_delegatee v.1) (genesis_stake v)).
+Proof. apply add_stake_ok; [apply new_delegatee_ok | reflexivity]. Qed.
+
+Lemma init_chain_dels_ok g : dels_ok (work (init_chain g)).
+Proof.
+  destruct (init_chain_pre_sf g) as (l2 & [HD _] & ->).
+  assert (H2 : dels_ok l2) by (intros a d; rewrite HD; simpl; rewrite lookup_empty; discriminate).
+  clear HD. revert l2 H2. induction (gen_validators g) as [|v vs IH]; intros l2 H2; simpl; [exact H2|].
+  apply IH. apply dels_ok_insert; [exact H2 | apply genesis_delegatee_ok].
+Qed.
+
+Lemma sstep_dels_ok s o : dels_ok (work s) → dels_ok (work (sstep s o)).
+Proof.
+  destruct o as [hd|t| |]; simpl.
+  - apply begin_block_dels_ok.
+  - apply deliver_dels_ok.
+  - apply end_block_dels_ok.
+  - intros H; exact H.
+Qed.
+
+Lemma sstep_committed s o :
+  committed (sstep s o) = committed s ∨ (o = SCommit ∧ committed (sstep s o) = committed s ++ [work s]).
+Proof.
+  destruct o as [hd|t| |]; simpl.
+  - left. apply begin_block_ctl.
+  - left. destruct (deliver s t) as [s' r] eqn:E. apply deliver_frame in E as (H & _). exact H.
+  - left. destruct (end_block s) as [s' r] eqn:E.
+    apply end_block_inv in E as [[-> _] | (ups & l3 & _ & _ & _ & _ & _ & H & _)]; [reflexivity | exact H].
+  - right. split; reflexivity.
+Qed.
+
+Theorem dels_ok_reachable g ops :
+  dels_ok (work (srun (init_chain g) ops)) ∧ Forall dels_ok (committed (srun (init_chain g) ops)).
+Proof.
+  unfold srun.
+  assert (H0 : dels_ok (work (init_chain g)) ∧ Forall dels_ok (committed (init_chain g))).
+  { split; [apply init_chain_dels_ok | constructor]. }
+  revert H0. generalize (init_chain g) as s. induction ops as [|o ops IH]; intros s [Hw Hc]; simpl; [split; assumption|].
+  apply IH. split; [apply sstep_dels_ok; assumption|].
+  destruct (sstep_committed s o) as [-> | [_ ->]]; [assumption|].
+  apply Forall_app; split; [assumption | constructor; [assumption | constructor]].
+Qed.
+Print Assumptions dels_ok_reachable.
+
+(* C11, first sentence, spelled out at every committed height *)
+Corollary C11_sums_at_every_height g ops v l a d :
+  committed (srun (init_chain g) ops) !! v = Some l → dels l !! a = Some d →
+  d_total d = sum_power (d_stakes d) ∧ d_self d = sum_power_of a (d_stakes d) ∧
+  d_addr d = a ∧ Forall (λ s, s_to s = a) (d_stakes d).
+Proof.
+  intros Hv Hd. destruct (dels_ok_reachable g ops) as [_ Hc].
+  rewrite Forall_forall in Hc. pose proof (Hc l (elem_of_list_lookup_2 _ _ _ Hv) a d Hd) as (H1 & H2 & H3 & H4).
+  auto.
+Qed.
+
+(* the total-power query is the sum of all bonded powers *)
+Lemma total_power_list (L : list (addr * delegatee)) :
+  Forall (λ kv, d_total kv.2 = sum_power (d_stakes kv.2)) L →
+  sumZ_with (λ kv : addr * delegatee, d_total kv.2) L
+  = sum_power (concat ((λ kv : addr * delegatee, d_stakes kv.2) <$> L)).
+Proof.
+  induction 1 as [|kv L Hkv _ IH]; simpl; [reflexivity|].
+  rewrite sum_power_app. f_equal; [exact Hkv | exact IH].
+Qed.
+
+Theorem total_power_query l : dels_ok l →
+  sumZ_with (λ kv : addr * delegatee, d_total kv.2) (map_to_list (dels l)) = bonded_power l.
+Proof.
+  intros Hok. unfold bonded_power, bonded_stakes. apply total_power_list.
+  apply Forall_forall. intros [a d] Hin. apply elem_of_map_to_list in Hin.
+  destruct (Hok a d Hin) as (_ & H & _). exact H.
+Qed.
+Print Assumptions total_power_query.
+
+Corollary total_power_query_reachable g ops :
+  let l := work (srun (init_chain g) ops) in
+  sumZ_with (λ kv : addr * delegatee, d_total kv.2) (map_to_list (dels l)) = bonded_power l.
+Proof. apply total_power_query, dels_ok_reachable. Qed.
+
+(* ================================================================== 3. (B2) the genesis-hash collision *)
+Definition ex_params : params := {|
+  g_version := 1; g_maxValidatorCnt := 10; g_minValidatorStake := 1000000000000000000; g_minDelegatorStake := 0;
+  g_rewardPerPower := 1; g_lazyRewardBlocks := 2; g_lazyApplyingBlocks := 1; g_gasPrice := 1;
+  g_minTrxGas := 10; g_maxTrxGas := 1000; g_maxBlockGas := 100000; g_minVotingPeriodBlocks := 1;
+  g_maxVotingPeriodBlocks := 100; g_minSelfStakeRatio := 50; g_maxUpdatableStakeRatio := 30;
+  g_maxIndividualStakeRatio := 100; g_slashRatio := 50; g_signedBlocksWindow := 100; g_minSignedBlocks := 10 |}.
+
+Definition ex_unstake (from : addr) (h : hash) (nonce : Z) (txh : hash) : tx := {|
+  t_type := TRX_UNSTAKING; t_from := from; t_to := from; t_from_ok := true; t_to_ok := true;
+  t_amount := 0; t_price := 1; t_gas := 10; t_nonce := nonce; t_payload := PUnstake h true; t_hash := txh;
+  t_sigok := true; t_evm := None |}.
+
+Definition ex_header (h : Z) : header :=
+  {| h_height := h; h_proposer := Some 1%N; h_votes := []; h_evidence := [] |}.
+
+Definition collision_genesis : genesis :=
+  {| gen_params := ex_params; gen_holders := [(1%N, 1000); (2%N, 1000)]; gen_validators := [(1%N, 10); (2%N, 10)] |}.
+(* block 1: both validators release their genesis stake (hash 0) *)
+Definition collision_block1 : list sop :=
+  [SBegin (ex_header 1); SDeliver (ex_unstake 1%N 0%N 0 101%N); SDeliver (ex_unstake 2%N 0%N 0 102%N); SEnd; SCommit].
+(* blocks 2 and 3: empty; the unbonding period (2 blocks) ends at height 3 *)
+Definition collision_block23 : list sop :=
+  [SBegin (ex_header 2); SEnd; SCommit; SBegin (ex_header 3); SEnd; SCommit].
+
+Definition all_ok (s : state) (ops : list sop) : bool :=
+  (fix go s ops := match ops with [] => true | o :: r =>
+     match o with
+     | SDeliver t => match (deliver s t).2 with Ok _ => true | _ => false end
+     | _ => sstep_ok s o end && go (sstep s o) r end) s ops.
+
+Theorem C11_collision_refuted : ∃ g ops1 ops2,
+  let s0 := init_chain g in let s1 := srun s0 ops1 in let s2 := srun s1 ops2 in
+  length (gen_validators g) = 2%nat ∧
+  (* every operation, every transaction included, succeeds; no evidence, no missed votes *)
+  all_ok s0 (ops1 ++ ops2) = true ∧
+  ¬ hashes_unique (work s0) ∧
+  (* after block 1 one of the two stakes is in neither place although nothing was refunded *)
+  bonded_power (work s0) + frozen_power (work s0) = 20 ∧
+  bonded_power (work s1) + frozen_power (work s1) = 10 ∧
+  total_balance (work s1) = total_balance (work s0) ∧
+  bal_of (work s1) 1%N = 1000 + 10 ∧ bal_of (work s1) 2%N = 1000 - 10 ∧
+  bonded_stakes (work s1) = [] ∧
+  frozen_stakes (work s1) = [with_refund 3 (genesis_stake (2%N, 10))] ∧
+  supply (work s1) = supply (work s0) - 10 * amountPerPower ∧
+  (* after the unbonding period only validator 2 is paid back *)
+  bonded_power (work s2) + frozen_power (work s2) = 0 ∧
+  bal_of (work s2) 1%N = 1000 + 10 ∧
+  bal_of (work s2) 2%N = 1000 - 10 + 10 * amountPerPower ∧
+  supply (work s2) = supply (work s0) - 10 * amountPerPower.
+Proof.
+  exists collision_genesis, collision_block1, collision_block23.
+  cbv zeta. split; [reflexivity|]. split; [vm_compute; reflexivity|]. split.
+  { intros [H _]. vm_compute in H. inversion H as [|x xs Hnin _]. apply Hnin. left. }
+  repeat split; vm_compute; reflexivity.
+Qed.
+Print Assumptions C11_collision_refuted.
+
+(* ================================================================== 4. hash uniqueness, pointwise *)
+Definition hu_pt (l : ledgers) : Prop :=
+  (∀ a d, dels l !! a = Some d → NoDup (s_hash <$> d_stakes d)) ∧
+  (∀ a1 a2 d1 d2 s1 s2, dels l !! a1 = Some d1 → dels l !! a2 = Some d2 →
+     s1 ∈ d_stakes d1 → s2 ∈ d_stakes d2 → s_hash s1 = s_hash s2 → a1 = a2) ∧
+  (∀ a d s k x, dels l !! a = Some d → s ∈ d_stakes d → frozen l !! k = Some x → s_hash s ≠ k) ∧
+  (∀ k x, frozen l !! k = Some x → s_hash x = k).
+
+Lemma elem_of_hashes_concat (L : list (addr * delegatee)) h :
+  h ∈ s_hash <$> concat ((λ kv : addr * delegatee, d_stakes kv.2) <$> L) ↔
+  ∃ kv s, kv ∈ L ∧ s ∈ d_stakes kv.2 ∧ s_hash s = h.
+Proof.
+  rewrite elem_of_list_fmap. split.
+  - intros (s & -> & Hs). apply elem_of_concat in Hs as (ss & Hss & Hs).
+    apply elem_of_list_fmap in Hss as (kv & -> & Hkv). eauto.
+  - intros (kv & s & Hkv & Hs & <-). exists s. split; [reflexivity|].
+    apply elem_of_concat. exists (d_stakes kv.2). split; [|assumption].
+    apply elem_of_list_fmap. eauto.
+Qed.
+
+Lemma NoDup_hashes_concat (L : list (addr * delegatee)) : NoDup L.*1 →
+  (NoDup (s_hash <$> concat ((λ kv : addr * delegatee, d_stakes kv.2) <$> L)) ↔
+   (∀ kv, kv ∈ L → NoDup (s_hash <$> d_stakes kv.2)) ∧
+   (∀ kv1 kv2 s1 s2, kv1 ∈ L → kv2 ∈ L → s1 ∈ d_stakes kv1.2 → s2 ∈ d_stakes kv2.2 →
+      s_hash s1 = s_hash s2 → kv1.1 = kv2.1)).
+Proof.
+  induction L as [|kv L IH]; intros Hnd.
+  { simpl. split; [intros _; split; [intros ? H; inversion H | intros ? ? ? ? H; inversion H] | intros _; constructor]. }
+  rewrite fmap_cons in Hnd. apply NoDup_cons in Hnd as [Hkv Hnd]. specialize (IH Hnd).
+  rewrite fmap_cons. simpl concat. rewrite fmap_app, NoDup_app, IH. clear IH. split.
+  - intros (H1 & H2 & H3 & H4). split.
+    + intros kv' Hin. apply elem_of_cons in Hin as [-> | Hin]; [exact H1 | apply H3, Hin].
+    + intros kv1 kv2 s1 s2 Hin1 Hin2 Hs1 Hs2 Heq.
+      apply elem_of_cons in Hin1 as [-> | Hin1]; apply elem_of_cons in Hin2 as [-> | Hin2].
+      * reflexivity.
+      * exfalso. apply (H2 (s_hash s1)); [apply elem_of_list_fmap; eauto|].
+        apply elem_of_hashes_concat. exists kv2, s2. auto.
+      * exfalso. apply (H2 (s_hash s2)); [apply elem_of_list_fmap; eauto|].
+        apply elem_of_hashes_concat. exists kv1, s1. auto.
+      * eapply H4; eassumption.
+  - intros (H1 & H2). split; [apply H1; left|]. split; [|split].
+    + intros h Hh Hh'. apply elem_of_list_fmap in Hh as (s1 & -> & Hs1).
+      apply elem_of_hashes_concat in Hh' as (kv2 & s2 & Hin2 & Hs2 & Heq).
+      apply Hkv. apply elem_of_list_fmap. exists kv2. split; [|assumption].
+      eapply (H2 kv kv2 s1 s2); [left | right; assumption | assumption | assumption | symmetry; assumption].
+    + intros kv' Hin. apply H1. right; assumption.
+    + intros kv1 kv2 s1 s2 Hin1 Hin2. apply H2; right; assumption.
+Qed.
+
+Lemma frozen_hashes_keys l : (∀ k x, frozen l !! k = Some x → s_hash x = k) →
+  s_hash <$> frozen_stakes l = (map_to_list (frozen l)).*1.
+Proof.
+  intros H. unfold frozen_stakes. rewrite <- list_fmap_compose. apply Forall_fmap_ext, Forall_forall.
+  intros [k x] Hin. apply elem_of_map_to_list in Hin. simpl. apply H; assumption.
+Qed.
+
+Lemma hashes_unique_pt l : hashes_unique l ↔ hu_pt l.
+Proof.
+  unfold hashes_unique, hu_pt. rewrite fmap_app, NoDup_app. unfold bonded_stakes.
+  rewrite (NoDup_hashes_concat _ (NoDup_fst_map_to_list (dels l))). split.
+  - intros (((H1 & H2) & H3 & _) & H4). split; [|split; [|split]].
+    + intros a d Hd. apply (H1 (a, d)). apply elem_of_map_to_list; assumption.
+    + intros a1 a2 d1 d2 s1 s2 Hd1 Hd2 Hs1 Hs2 Heq.
+      apply (H2 (a1, d1) (a2, d2) s1 s2); try assumption; apply elem_of_map_to_list; assumption.
+    + intros a d s k x Hd Hs Hf Heq. apply (H3 (s_hash s)).
+      * apply elem_of_hashes_concat. exists (a, d), s. split; [apply elem_of_map_to_list; assumption | auto].
+      * rewrite (frozen_hashes_keys l H4). apply elem_of_list_fmap. exists (k, x).
+        split; [simpl; congruence | apply elem_of_map_to_list; assumption].
+    + exact H4.
+  - intros (H1 & H2 & H3 & H4). split; [|exact H4]. split; [split|split].
+    + intros [a d] Hin. apply elem_of_map_to_list in Hin. eapply H1; eassumption.
+    + intros [a1 d1] [a2 d2] s1 s2 Hin1 Hin2. apply elem_of_map_to_list in Hin1, Hin2. simpl.
+      eapply H2; eassumption.
+    + intros h Hh Hh'. apply elem_of_hashes_concat in Hh as ([a d] & s & Hin & Hs & <-).
+      apply elem_of_map_to_list in Hin.
+      rewrite (frozen_hashes_keys l H4) in Hh'. apply elem_of_list_fmap in Hh' as ([k x] & Hk & Hin').
+      apply elem_of_map_to_list in Hin'. simpl in Hk. eapply H3; eauto.
+    + rewrite (frozen_hashes_keys l H4). apply NoDup_fst_map_to_list.
+Qed.
+
+(* ================================================================== 5. (C1) who can release a bonded stake *)
+Lemma remove_stake_elem_ne h l s0 st :
+  find_stake h l = Some s0 → st ∈ l → st ≠ s0 → st ∈ remove_stake h l.
+Proof.
+  induction l as [|s r IH]; simpl; [discriminate|].
+  destruct (s_hash s =? h)%N.
+  - intros [= <-] Hin Hne. apply elem_of_cons in Hin as [-> | Hin]; [contradiction | assumption].
+  - intros Hf Hin Hne. apply elem_of_cons in Hin as [-> | Hin]; [left | right; apply IH; assumption].
+Qed.
+
+Lemma sum_power_of_bounds a l : (∀ s, s ∈ l → 0 ≤ s_power s) → 0 ≤ sum_power_of a l ≤ sum_power l.
+Proof.
+  induction l as [|s r IH]; intros H; simpl; [lia|].
+  assert (0 ≤ s_power s) by (apply H; left).
+  assert (0 ≤ sum_power_of a r ≤ sum_power r) by (apply IH; intros x Hx; apply H; right; assumption).
+  destruct (s_from s =? a)%N; lia.
+Qed.
+
+(* the exact rule of the model, for any outcome of the delivery *)
+Theorem release_only_by_owner s t s' r st :
+  deliver s t = (s', r) → st ∈ bonded_stakes (work s) → st ∉ bonded_stakes (work s') →
+  t_type t = TRX_UNSTAKING ∧ t_sigok t = true ∧
+  ∃ d hs b s0,
+    dels (work s) !! t_to t = Some d ∧ t_payload t = PUnstake hs b ∧
+    find_stake hs (d_stakes d) = Some s0 ∧ s_from s0 = t_from t ∧ st ∈ d_stakes d ∧
+    (st = s0 ∨ d_self (del_stake d hs) = 0 ∨ d_total (del_stake d hs) = 0).
+Proof.
+  intros Hdel Hin Hout.
+  apply deliver_frame in Hdel as (_ & _ & _ & _ & _ & [[HD _] | (s2 & l & l' & Hsig & _ & _ & [HD _] & Hex & [HD' _])]).
+  { exfalso. apply Hout. apply elem_of_bonded. rewrite HD. apply elem_of_bonded. exact Hin. }
+  apply elem_of_bonded in Hin as (a & d & Hd & Hst). rewrite <- HD in Hd.
+  assert (Hout' : ∀ d', dels l' !! a = Some d' → st ∉ d_stakes d').
+  { intros d' Hd' Hst'. apply Hout, elem_of_bonded. exists a, d'. rewrite HD'. auto. }
+  apply stake_execute_inv in Hex as [(Hty & d0 & Hd0 & HDl & _) | [(Hty & d0 & hs & b & s0 & Hd0 & Hp & Hf & Hown & HDl & _) | (_ & _ & HDl & _)]].
+  - (* staking only adds *)
+    exfalso. destruct (decide (t_to t = a)) as [Ha|Ha].
+    + apply (Hout' (add_stake d0 (stake_of_tx t (b_height (bctx s2)) (power_of (t_amount t))))).
+      * rewrite HDl, Ha. apply lookup_insert.
+      * destruct Hd0 as [Hd0 | (Hd0 & _)]; rewrite Ha in Hd0; [|congruence].
+        assert (d0 = d) by congruence. subst d0. simpl. apply elem_of_app. left; assumption.
+    + apply (Hout' d); [|assumption]. rewrite HDl, lookup_insert_ne by assumption. assumption.
+  - split; [assumption|]. split; [assumption|]. exists d0, hs, b, s0. rewrite <- HD.
+    destruct (decide (t_to t = a)) as [Ha|Ha].
+    2:{ exfalso. apply (Hout' d); [|assumption]. rewrite HDl. unfold unstake_result; cbv zeta; simpl.
+        destruct (_ =? 0); [rewrite lookup_delete_ne by assumption | rewrite lookup_insert_ne by assumption]; assumption. }
+    rewrite Ha in Hd0. assert (d0 = d) by congruence. subst d0. rewrite Ha.
+    do 5 (split; [assumption|]).
+    destruct (decide (st = s0)) as [|Hne]; [left; assumption|]. right.
+    destruct (Z.eq_dec (d_self (del_stake d hs)) 0) as [Hs0|Hs0]; [left; assumption|]. right.
+    destruct (Z.eq_dec (d_total (del_stake d hs)) 0) as [Ht0|Ht0]; [assumption|]. exfalso.
+    apply (Hout' (del_stake d hs)).
+    + rewrite HDl. unfold unstake_result; cbv zeta; simpl.
+      apply Z.eqb_neq in Hs0, Ht0. rewrite Hs0, Ht0, Ha. apply lookup_insert.
+    + unfold del_stake. rewrite Hf. simpl. apply (remove_stake_elem_ne hs _ s0); assumption.
+  - exfalso. apply (Hout' d); [|assumption]. rewrite HDl. assumption.
+Qed.
+Print Assumptions release_only_by_owner.
+
+(* the intended reading: the named stake belongs to the signer; other stakes go only when the
+   delegatee thereby lost all its own power (force release) *)
+Corollary unstake_only_owner s t s' g st :
+  dels_ok (work s) → (∀ x, x ∈ bonded_stakes (work s) → 0 ≤ s_power x) →
+  deliver s t = (s', Ok g) → st ∈ bonded_stakes (work s) → st ∉ bonded_stakes (work s') →
+  t_type t = TRX_UNSTAKING ∧ t_sigok t = true ∧
+  ∃ d hs b s0,
+    dels (work s) !! t_to t = Some d ∧ t_payload t = PUnstake hs b ∧ s_to st = t_to t ∧
+    find_stake hs (d_stakes d) = Some s0 ∧ s_from s0 = t_from t ∧
+    (st = s0 ∨ sum_power_of (t_to t) (remove_stake hs (d_stakes d)) = 0).
+Proof.
+  intros Hok Hpos Hdel Hin Hout.
+  destruct (release_only_by_owner _ _ _ _ _ Hdel Hin Hout) as (Hty & Hsig & d & hs & b & s0 & Hd & Hp & Hf & Hown & Hst & Hcase).
+  split; [assumption|]. split; [assumption|]. exists d, hs, b, s0.
+  pose proof (Hok _ _ Hd) as Hdok. destruct Hdok as (_ & _ & _ & Hto).
+  rewrite Forall_forall in Hto.
+  do 2 (split; [assumption|]). split; [apply Hto; assumption|]. do 2 (split; [assumption|]).
+  destruct Hcase as [-> | Hcase]; [left; reflexivity|]. right.
+  destruct (del_stake_ok _ _ hs (Hok _ _ Hd)) as (_ & Ht & Hs & _).
+  unfold del_stake in *. rewrite Hf in *. simpl in *.
+  destruct Hcase as [H0 | H0]; [congruence|].
+  assert (Hb : 0 ≤ sum_power_of (t_to t) (remove_stake hs (d_stakes d)) ≤ sum_power (remove_stake hs (d_stakes d))).
+  { apply sum_power_of_bounds. intros x Hx. apply Hpos, elem_of_bonded. exists (t_to t), d. split; [assumption|].
+    eapply sublist_elem; [apply remove_stake_sublist | exact Hx]. }
+  lia.
+Qed.
+Print Assumptions unstake_only_owner.
+
+(* ================================================================== 6. how stakes move: one relation for C11/C12 *)
+Lemma sublist_NoDup' {A} (l k : list A) : l `sublist_of` k → NoDup k → NoDup l.
+Proof.
+  induction 1 as [|x l k H IH|x l k H IH]; intros Hk; [constructor| |].
+  - apply NoDup_cons in Hk as [Hx Hk]. apply NoDup_cons. split; [|auto].
+    intros Hin. apply Hx. eapply sublist_elem; eassumption.
+  - apply NoDup_cons in Hk as [_ Hk]. auto.
+Qed.
+
+Lemma remove_stake_hash_notin h l : NoDup (s_hash <$> l) → h ∉ s_hash <$> remove_stake h l.
+Proof.
+  induction l as [|s r IH]; simpl; [intros _ H; inversion H|].
+  intros Hnd. apply NoDup_cons in Hnd as [Hs Hnd].
+  destruct (s_hash s =? h)%N eqn:E.
+  - apply N.eqb_eq in E. subst h. exact Hs.
+  - apply N.eqb_neq in E. simpl. intros Hin. apply elem_of_cons in Hin as [Hin | Hin]; [congruence | apply IH; assumption].
+Qed.
+
+Lemma elem_hash_fmap (l : list stake) s : s ∈ l → s_hash s ∈ s_hash <$> l.
+Proof. intros H. apply elem_of_list_fmap. eauto. Qed.
+
+Lemma NoDup_hash_inj (l : list stake) x y : NoDup (s_hash <$> l) → x ∈ l → y ∈ l → s_hash x = s_hash y → x = y.
+Proof.
+  induction l as [|s r IH]; simpl; intros Hnd Hx Hy Heq; [inversion Hx|].
+  apply NoDup_cons in Hnd as [Hs Hnd].
+  apply elem_of_cons in Hx as [-> | Hx]; apply elem_of_cons in Hy as [-> | Hy].
+  - reflexivity.
+  - exfalso. apply Hs. rewrite Heq. apply elem_hash_fmap; assumption.
+  - exfalso. apply Hs. rewrite <- Heq. apply elem_hash_fmap; assumption.
+  - apply IH; assumption.
+Qed.
+
+Lemma with_refund_hash R s : s_hash (with_refund R s) = s_hash s. Proof. reflexivity. Qed.
+
+Lemma freeze_all_lookup ss : ∀ F R k x, freeze_all F R ss !! k = Some x →
+  F !! k = Some x ∨ ∃ st, st ∈ ss ∧ k = s_hash st ∧ x = with_refund R st.
+Proof.
+  unfold freeze_all. induction ss as [|s ss IH]; intros F R k x; simpl; [auto|].
+  intros H. apply IH in H as [H | (st & H1 & H2 & H3)].
+  - apply lookup_insert_Some in H as [[<- <-] | [_ H]]; [|auto].
+    right. exists s. split; [left|]. auto.
+  - right. exists st. split; [right; assumption | auto].
+Qed.
+
+Lemma freeze_all_keep ss : ∀ F R k, (∀ st, st ∈ ss → s_hash st ≠ k) → freeze_all F R ss !! k = F !! k.
+Proof.
+  unfold freeze_all. induction ss as [|s ss IH]; intros F R k H; simpl; [reflexivity|].
+  rewrite IH by (intros st Hst; apply H; right; assumption).
+  apply lookup_insert_ne. apply H; left.
+Qed.
+
+Lemma freeze_all_new ss : ∀ F R st, NoDup (s_hash <$> ss) → st ∈ ss →
+  freeze_all F R ss !! s_hash st = Some (with_refund R st).
+Proof.
+  unfold freeze_all. induction ss as [|s ss IH]; intros F R st Hnd Hin; simpl; [inversion Hin|].
+  simpl in Hnd. apply NoDup_cons in Hnd as [Hs Hnd].
+  apply elem_of_cons in Hin as [-> | Hin]; [|apply IH; assumption].
+  change (freeze_all (<[s_hash s:=with_refund R s]> F) R ss !! s_hash s = Some (with_refund R s)).
+  rewrite freeze_all_keep; [apply lookup_insert|].
+  intros st Hst Heq. apply Hs. rewrite <- Heq. apply elem_hash_fmap; assumption.
+Qed.
+
+(* the relation [Q] says what may happen to a stake that stays: nothing (eq), or a power cut *)
+Definition stake_sim (x y : stake) : Prop :=
+  s_from x = s_from y ∧ s_to x = s_to y ∧ s_hash x = s_hash y ∧ s_start x = s_start y ∧ s_refund x = s_refund y.
+Record Qok (Q : stake → stake → Prop) : Prop := {
+  Q_refl : ∀ x, Q x x;
+  Q_trans : ∀ x y z, Q x y → Q y z → Q x z;
+  Q_hash : ∀ x y, Q x y → s_hash x = s_hash y }.
+Lemma Qok_eq : Qok eq.
+Proof. split; [reflexivity | intros; congruence | intros ? ? ->; reflexivity]. Qed.
+Lemma Qok_sim : Qok stake_sim.
+Proof.
+  split.
+  - intros x; repeat split.
+  - intros x y z (?&?&?&?&?) (?&?&?&?&?); repeat split; congruence.
+  - intros x y (_&_&H&_); exact H.
+Qed.
+
+Definition evolves (Q : stake → stake → Prop) (R : Z) (l l' : ledgers) : Prop :=
+  (∀ a d', dels l' !! a = Some d' → ∃ d, dels l !! a = Some d ∧
+      (s_hash <$> d_stakes d') `sublist_of` (s_hash <$> d_stakes d) ∧
+      ∀ s', s' ∈ d_stakes d' → ∃ s, s ∈ d_stakes d ∧ Q s s') ∧
+  (∀ k x, frozen l' !! k = Some x → frozen l !! k = Some x ∨
+      ∃ a d s0 s, dels l !! a = Some d ∧ s0 ∈ d_stakes d ∧ Q s0 s ∧ x = with_refund R s ∧ k = s_hash s0 ∧
+        (NoDup (s_hash <$> d_stakes d) → ∀ d', dels l' !! a = Some d' → k ∉ s_hash <$> d_stakes d')).
+
+Lemma evolves_refl Q R l : Qok Q → evolves Q R l l.
+Proof.
+  intros HQ. split.
+  - intros a d Hd. exists d. split; [assumption|]. split; [reflexivity|].
+    intros s Hs. exists s. split; [assumption | apply (Q_refl _ HQ)].
+  - intros k x H; left; exact H.
+Qed.
+
+Lemma evolves_sf Q R l1 l1' l2 l2' : same_sf l1 l1' → same_sf l2 l2' → evolves Q R l1 l2 → evolves Q R l1' l2'.
+Proof. intros [H1 H2] [H3 H4]. unfold evolves. rewrite H1, H2, H3, H4. auto. Qed.
+
+Lemma evolves_trans Q R l1 l2 l3 : Qok Q → evolves Q R l1 l2 → evolves Q R l2 l3 → evolves Q R l1 l3.
+Proof.
+  intros HQ [A1 B1] [A2 B2]. split.
+  - intros a d3 Hd3. destruct (A2 _ _ Hd3) as (d2 & Hd2 & Hsub2 & Hq2).
+    destruct (A1 _ _ Hd2) as (d1 & Hd1 & Hsub1 & Hq1). exists d1. split; [assumption|]. split; [etrans; eassumption|].
+    intros s3 Hs3. destruct (Hq2 _ Hs3) as (s2 & Hs2 & Hq). destruct (Hq1 _ Hs2) as (s1 & Hs1 & Hq').
+    exists s1. split; [assumption | eapply (Q_trans _ HQ); eassumption].
+  - intros k x H3. destruct (B2 _ _ H3) as [H2 | (a & d2 & s0 & s & Hd2 & Hs0 & Hq & -> & -> & Hnot)].
+    + destruct (B1 _ _ H2) as [H1 | (a & d1 & s0 & s & Hd1 & Hs0 & Hq & -> & -> & Hnot)]; [left; assumption|].
+      right. exists a, d1, s0, s. do 5 (split; [assumption || reflexivity|]).
+      intros Hnd d3 Hd3 Hin. destruct (A2 _ _ Hd3) as (d2 & Hd2 & Hsub2 & _).
+      apply (Hnot Hnd d2 Hd2). eapply sublist_elem; eassumption.
+    + destruct (A1 _ _ Hd2) as (d1 & Hd1 & Hsub1 & Hq1). destruct (Hq1 _ Hs0) as (s1 & Hs1 & Hq').
+      right. exists a, d1, s1, s. split; [assumption|]. split; [assumption|].
+      split; [eapply (Q_trans _ HQ); eassumption|]. split; [reflexivity|].
+      split; [symmetry; apply (Q_hash _ HQ); assumption|].
+      intros Hnd. apply Hnot. eapply sublist_NoDup'; eassumption.
+Qed.
+
+Lemma evolves_weaken (Q Q' : stake → stake → Prop) R l l' :
+  (∀ x y, Q x y → Q' x y) → evolves Q R l l' → evolves Q' R l l'.
+Proof.
+  intros HQ [A B]. split.
+  - intros a d' Hd'. destruct (A _ _ Hd') as (d & Hd & Hsub & Hq). exists d. split; [assumption|]. split; [assumption|].
+    intros s' Hs'. destruct (Hq _ Hs') as (s & Hs & Hqs). eauto.
+  - intros k x H. destruct (B _ _ H) as [H' | (a & d & s0 & s & H1 & H2 & H3 & H4)]; [left; assumption|].
+    right. exists a, d, s0, s. auto.
+Qed.
+
+(* ------------------------------------------------------------------ every stake-moving step is an evolution *)
+Lemma unstake_result_lookup_ne D F a d hs s0 R a' : a' ≠ a → (unstake_result D F a d hs s0 R).1 !! a' = D !! a'.
+Proof.
+  intros Hne. unfold unstake_result; cbv zeta; simpl.
+  destruct (_ =? 0); [apply lookup_delete_ne | apply lookup_insert_ne]; congruence.
+Qed.
+
+Lemma unstake_result_lookup_eq D F a d hs s0 R d' :
+  find_stake hs (d_stakes d) = Some s0 → (unstake_result D F a d hs s0 R).1 !! a = Some d' →
+  d_stakes d' `sublist_of` remove_stake hs (d_stakes d) ∧ (d_self (del_stake d hs) = 0 → d_stakes d' = []).
+Proof.
+  intros Hf. unfold unstake_result; cbv zeta; simpl.
+  destruct (_ =? 0) eqn:Et; [rewrite lookup_delete; discriminate|].
+  rewrite lookup_insert. intros [= <-].
+  destruct (d_self (del_stake d hs) =? 0) eqn:Es.
+  - simpl. split; [apply sublist_nil_l | reflexivity].
+  - apply Z.eqb_neq in Es. unfold del_stake in *. rewrite Hf in *. simpl in *. split; [reflexivity | contradiction].
+Qed.
+
+Lemma unstake_result_frozen D F a d hs s0 R k x :
+  find_stake hs (d_stakes d) = Some s0 → (unstake_result D F a d hs s0 R).2 !! k = Some x →
+  F !! k = Some x ∨ (k = s_hash s0 ∧ x = with_refund R s0) ∨
+  (d_self (del_stake d hs) = 0 ∧ ∃ st, st ∈ remove_stake hs (d_stakes d) ∧ k = s_hash st ∧ x = with_refund R st).
+Proof.
+  intros Hf. unfold unstake_result; cbv zeta; simpl.
+  assert (H1 : ∀ k x, <[s_hash s0 := with_refund R s0]> F !! k = Some x → F !! k = Some x ∨ (k = s_hash s0 ∧ x = with_refund R s0)).
+  { intros k' x' H. apply lookup_insert_Some in H as [[<- <-] | [_ H]]; auto. }
+  destruct (d_self (del_stake d hs) =? 0) eqn:Es.
+  - intros H. apply freeze_all_lookup in H as [H | (st & Hst & -> & ->)].
+    + destruct (H1 _ _ H) as [H' | H']; auto.
+    + right; right. apply Z.eqb_eq in Es. split; [assumption|]. exists st.
+      unfold del_stake in Hst. rewrite Hf in Hst. simpl in Hst. auto.
+  - intros H. destruct (H1 _ _ H) as [H' | H']; auto.
+Qed.
+
+Lemma ev_unstake Q R l l' a d hs s0 : Qok Q →
+  dels l !! a = Some d → find_stake hs (d_stakes d) = Some s0 →
+  dels l' = (unstake_result (dels l) (frozen l) a d hs s0 R).1 →
+  frozen l' = (unstake_result (dels l) (frozen l) a d hs s0 R).2 →
+  evolves Q R l l'.
+Proof.
+  intros HQ Hd Hf HD HF. destruct (find_stake_spec _ _ _ Hf) as [Hin0 Hh0].
+  assert (Hsame : ∀ (d0 : delegatee), ∀ s', s' ∈ d_stakes d0 → ∃ s, s ∈ d_stakes d0 ∧ Q s s').
+  { intros d0 s' Hs'. exists s'. split; [assumption | apply (Q_refl _ HQ)]. }
+  split.
+  - intros a' d' Hd'. rewrite HD in Hd'. destruct (decide (a' = a)) as [->|Hne].
+    + apply unstake_result_lookup_eq in Hd' as [Hsub _]; [|assumption].
+      exists d. split; [assumption|].
+      assert (Hsub' : d_stakes d' `sublist_of` d_stakes d) by (etrans; [exact Hsub | apply remove_stake_sublist]).
+      split; [apply fmap_sublist; assumption|].
+      intros s' Hs'. exists s'. split; [eapply sublist_elem; eassumption | apply (Q_refl _ HQ)].
+    + rewrite unstake_result_lookup_ne in Hd' by assumption. exists d'. split; [assumption|]. split; [reflexivity | apply Hsame].
+  - intros k x Hk. rewrite HF in Hk. apply unstake_result_frozen in Hk as [Hk | [[-> ->] | (Hs & st & Hst & -> & ->)]]; [left; assumption| | |assumption].
+    + right. exists a, d, s0, s0. do 2 (split; [assumption|]). split; [apply (Q_refl _ HQ)|]. do 2 (split; [reflexivity|]).
+      intros Hnd d' Hd'. rewrite HD in Hd'. apply unstake_result_lookup_eq in Hd' as [Hsub _]; [|assumption].
+      intros Hin. apply (remove_stake_hash_notin hs _ Hnd). rewrite Hh0 in Hin.
+      eapply sublist_elem; [apply fmap_sublist; exact Hsub | exact Hin].
+    + right. exists a, d, st, st. split; [assumption|].
+      split; [eapply sublist_elem; [apply remove_stake_sublist | exact Hst]|].
+      split; [apply (Q_refl _ HQ)|]. do 2 (split; [reflexivity|]).
+      intros _ d' Hd'. rewrite HD in Hd'. apply unstake_result_lookup_eq in Hd' as [_ Hnil]; [|assumption].
+      rewrite (Hnil Hs). simpl. intros Hin; inversion Hin.
+Qed.
+
+Lemma ev_insert_sub Q R l a d d' : Qok Q → dels l !! a = Some d →
+  (s_hash <$> d_stakes d') `sublist_of` (s_hash <$> d_stakes d) →
+  (∀ s', s' ∈ d_stakes d' → ∃ s, s ∈ d_stakes d ∧ Q s s') →
+  evolves Q R l (set_dels l (<[a := d']> (dels l))).
+Proof.
+  intros HQ Hd Hsub Hq. split.
+  - intros a' d'' Hd''. rewrite dels_set_dels in Hd''. destruct (decide (a' = a)) as [->|Hne].
+    + rewrite lookup_insert in Hd''. injection Hd'' as <-. exists d. auto.
+    + rewrite lookup_insert_ne in Hd'' by congruence. exists d''. split; [assumption|]. split; [reflexivity|].
+      intros s' Hs'. exists s'. split; [assumption | apply (Q_refl _ HQ)].
+  - intros k x H. left; exact H.
+Qed.
+
+Lemma ev_marks Q R l a d m : Qok Q → dels l !! a = Some d → evolves Q R l (set_dels l (<[a := with_marks d m]> (dels l))).
+Proof.
+  intros HQ Hd. apply (ev_insert_sub Q R l a d); [assumption|assumption|reflexivity|].
+  intros s' Hs'. exists s'. split; [assumption | apply (Q_refl _ HQ)].
+Qed.
+
+Lemma ev_slash Q R l a d ratio : Qok Q →
+  (∀ s, Q s (with_power (s_power s - (s_power s * ratio) `quot` 100) s)) → dels l !! a = Some d →
+  evolves Q R l (set_dels l (<[a := (slash_all d ratio).1]> (dels l))).
+Proof.
+  intros HQ Hp Hd. apply (ev_insert_sub Q R l a d); [assumption|assumption| |].
+  - unfold slash_all; simpl.
+    etrans; [apply fmap_sublist, foldl_remove_sublist|].
+    rewrite <- list_fmap_compose. erewrite list_fmap_ext; [reflexivity|].
+    intros i s _. simpl. destruct (_ <? 1); reflexivity.
+  - unfold slash_all; simpl. intros s' Hs'.
+    apply (sublist_elem _ _ _ (foldl_remove_sublist _ _)) in Hs'.
+    apply elem_of_list_fmap in Hs' as (s & -> & Hs). exists s. split; [assumption|].
+    destruct (_ <? 1); [apply (Q_refl _ HQ) | apply Hp].
+Qed.
+
+Lemma ev_jail Q R l a d : Qok Q → dels l !! a = Some d → evolves Q R l (jail l a d R).
+Proof.
+  intros HQ Hd. unfold jail. split.
+  - intros a' d' Hd'. rewrite dels_set_dels in Hd'. apply lookup_delete_Some in Hd' as [_ Hd'].
+    exists d'. split; [assumption|]. split; [reflexivity|].
+    intros s' Hs'. exists s'. split; [assumption | apply (Q_refl _ HQ)].
+  - intros k x H. rewrite frozen_set_dels, frozen_set_frozen in H.
+    apply freeze_all_lookup in H as [H | (st & Hst & -> & ->)]; [left; assumption|].
+    right. exists a, d, st, st. do 2 (split; [assumption|]). split; [apply (Q_refl _ HQ)|]. do 2 (split; [reflexivity|]).
+    intros _ d' Hd'. rewrite dels_set_dels, lookup_delete in Hd'. discriminate.
+Qed.
+
+Lemma ev_shrink Q R l l' : Qok Q → dels l' = dels l → (∀ k x, frozen l' !! k = Some x → frozen l !! k = Some x) →
+  evolves Q R l l'.
+Proof.
+  intros HQ HD HF. split.
+  - intros a d Hd. rewrite HD in Hd. exists d. split; [assumption|]. split; [reflexivity|].
+    intros s' Hs'. exists s'. split; [assumption | apply (Q_refl _ HQ)].
+  - intros k x H. left. apply HF; assumption.
+Qed.
+
+(* ------------------------------------------------------------------ consequences of an evolution *)
+Lemma hash_in_sub (l k : list stake) s : (s_hash <$> l) `sublist_of` (s_hash <$> k) → s ∈ l → ∃ sz, sz ∈ k ∧ s_hash sz = s_hash s.
+Proof.
+  intros Hsub Hs. apply elem_hash_fmap in Hs. apply (sublist_elem _ _ _ Hsub) in Hs.
+  apply elem_of_list_fmap in Hs as (sz & Heq & Hin). eauto.
+Qed.
+
+Lemma hu_pt_evolves Q R l l' : Qok Q → hu_pt l → evolves Q R l l' → hu_pt l'.
+Proof.
+  intros HQ (U1 & U2 & U3 & U4) [A B]. split; [|split; [|split]].
+  - intros a d' Hd'. destruct (A _ _ Hd') as (d & Hd & Hsub & _).
+    eapply sublist_NoDup'; [exact Hsub | eapply U1; exact Hd].
+  - intros a1 a2 d1' d2' s1 s2 Hd1' Hd2' Hs1 Hs2 Heq.
+    destruct (A _ _ Hd1') as (d1 & Hd1 & Hsub1 & _). destruct (A _ _ Hd2') as (d2 & Hd2 & Hsub2 & _).
+    destruct (hash_in_sub _ _ _ Hsub1 Hs1) as (s1z & Hin1 & Hh1).
+    destruct (hash_in_sub _ _ _ Hsub2 Hs2) as (s2z & Hin2 & Hh2).
+    eapply (U2 a1 a2 d1 d2 s1z s2z); try eassumption. congruence.
+  - intros a' d' s' k x Hd' Hs' Hk Heq.
+    destruct (A _ _ Hd') as (dz & Hdz & Hsub & _). destruct (hash_in_sub _ _ _ Hsub Hs') as (sz & Hinz & Hhz).
+    destruct (B _ _ Hk) as [Hold | (a & d & s0 & s & Hd & Hs0 & Hq & -> & -> & Hnot)].
+    + eapply (U3 a' dz sz k x); try eassumption. congruence.
+    + assert (a' = a) by (eapply (U2 a' a dz d sz s0); try eassumption; congruence). subst a'.
+      assert (dz = d) by congruence. subst dz.
+      apply (Hnot (U1 _ _ Hd) d' Hd'). rewrite <- Heq. apply elem_hash_fmap; assumption.
+  - intros k x Hk. destruct (B _ _ Hk) as [Hold | (a & d & s0 & s & Hd & Hs0 & Hq & -> & -> & _)]; [eapply U4; eassumption|].
+    rewrite with_refund_hash. symmetry. apply (Q_hash _ HQ); assumption.
+Qed.
+
+(* where a bonded stake can be found afterwards (by hash): under its own delegatee, related by Q,
+   or unbonding as a Q-related copy with the refund height R *)
+Lemma evolves_fate Q R l l' a d st : Qok Q → hu_pt l → evolves Q R l l' →
+  dels l !! a = Some d → st ∈ d_stakes d →
+  (∀ a' d' st', dels l' !! a' = Some d' → st' ∈ d_stakes d' → s_hash st' = s_hash st → a' = a ∧ Q st st') ∧
+  (∀ k x, frozen l' !! k = Some x → k = s_hash st → ∃ s, Q st s ∧ x = with_refund R s).
+Proof.
+  intros HQ (U1 & U2 & U3 & U4) [A B] Hd Hst. split.
+  - intros a' d' st' Hd' Hst' Heq. destruct (A _ _ Hd') as (dz & Hdz & _ & Hq). destruct (Hq _ Hst') as (sz & Hsz & Hqs).
+    pose proof (Q_hash _ HQ _ _ Hqs) as Hh.
+    assert (a' = a) by (eapply (U2 a' a dz d sz st); try eassumption; congruence). subst a'.
+    assert (dz = d) by congruence. subst dz.
+    assert (sz = st) by (eapply NoDup_hash_inj; [eapply U1; exact Hd | assumption | assumption | congruence]). subst sz.
+    auto.
+  - intros k x Hk ->. destruct (B _ _ Hk) as [Hold | (a' & d' & s0 & s & Hd' & Hs0 & Hq & -> & Hh & _)].
+    + exfalso. eapply (U3 a d st); [exact Hd | exact Hst | exact Hold | reflexivity].
+    + assert (a' = a) by (eapply (U2 a' a d' d s0 st); try eassumption; congruence). subst a'.
+      assert (d' = d) by congruence. subst d'.
+      assert (s0 = st) by (eapply NoDup_hash_inj; [eapply U1; exact Hd | assumption | assumption | congruence]). subst s0.
+      eauto.
+Qed.
+
+(* ------------------------------------------------------------------ the operations as evolutions *)
+Lemma hu_pt_sf l l' : same_sf l l' → hu_pt l → hu_pt l'.
+Proof. intros [H1 H2]. unfold hu_pt. rewrite H1, H2. auto. Qed.
+
+Lemma deliver_moves s t s' r : deliver s t = (s', r) →
+  evolves eq (release_height s) (work s) (work s') ∨
+  (t_type t = TRX_STAKING ∧ ∃ d,
+     (dels (work s) !! t_to t = Some d ∨
+      (dels (work s) !! t_to t = None ∧ t_from t = t_to t ∧ d = new_delegatee (t_to t))) ∧
+     dels (work s') = <[t_to t := add_stake d (stake_of_tx t (b_height (bctx s)) (power_of (t_amount t)))]> (dels (work s)) ∧
+     frozen (work s') = frozen (work s)).
+Proof.
+  intros Hdel.
+  apply deliver_frame in Hdel as (_ & _ & _ & _ & _ & [Hsf | (s2 & l & l' & _ & Hg & Hh & Hsf & Hex & Hsf')]).
+  { left. eapply evolves_sf; [apply same_sf_refl | exact Hsf | apply evolves_refl, Qok_eq]. }
+  assert (HR : release_height s2 = release_height s) by (unfold release_height; congruence).
+  destruct Hsf as [HD HF]. destruct Hsf' as [HD' HF'].
+  apply stake_execute_inv in Hex as [(Hty & d & Hd & HDl & HFl) | [(Hty & d & hs & b & s0 & Hd & _ & Hf & _ & HDl & HFl) | (_ & _ & Hsame)]].
+  - right. split; [assumption|]. exists d. rewrite HD in Hd, HDl. rewrite HF in HFl. rewrite Hh in HDl.
+    split; [assumption|]. split; congruence.
+  - left. rewrite HR in HDl, HFl.
+    apply (evolves_sf eq _ l (work s) l' (work s')); [split; congruence | split; assumption |].
+    eapply ev_unstake; [apply Qok_eq | exact Hd | exact Hf | exact HDl | exact HFl].
+  - left. eapply evolves_sf; [apply same_sf_refl | | apply evolves_refl, Qok_eq].
+    eapply same_sf_trans; [split; [exact HD | exact HF]|]. eapply same_sf_trans; [exact Hsame | split; assumption].
+Qed.
+
+Definition block_release_height (s : state) (hd : header) : Z := h_height hd + g_lazyRewardBlocks (gparams s).
+
+Lemma begin_block_evolves s hd :
+  evolves stake_sim (block_release_height s hd) (work s) (work (begin_block s hd).1).
+Proof.
+  apply (begin_block_ind (λ l, evolves stake_sim (block_release_height s hd) (work s) l)).
+  - intros l l' Hsf H. eapply evolves_sf; [apply same_sf_refl | exact Hsf | exact H].
+  - apply evolves_refl, Qok_sim.
+  - intros l a d _ H Hd. eapply evolves_trans; [apply Qok_sim | exact H |].
+    apply ev_slash; [apply Qok_sim | | assumption]. intros x; repeat split.
+  - intros l a d m H Hd. eapply evolves_trans; [apply Qok_sim | exact H | apply ev_marks; [apply Qok_sim | assumption]].
+  - intros l a d _ H Hd. eapply evolves_trans; [apply Qok_sim | exact H | apply ev_jail; [apply Qok_sim | assumption]].
+Qed.
+
+(* without evidence in the header nothing is slashed: stakes stay exactly as they are *)
+Lemma begin_block_evolves_noevidence s hd : h_evidence hd = [] →
+  evolves eq (block_release_height s hd) (work s) (work (begin_block s hd).1).
+Proof.
+  intros Hev. apply (begin_block_ind (λ l, evolves eq (block_release_height s hd) (work s) l)).
+  - intros l l' Hsf H. eapply evolves_sf; [apply same_sf_refl | exact Hsf | exact H].
+  - apply evolves_refl, Qok_eq.
+  - intros l a d Hin. rewrite Hev in Hin. inversion Hin.
+  - intros l a d m H Hd. eapply evolves_trans; [apply Qok_eq | exact H | apply ev_marks; [apply Qok_eq | assumption]].
+  - intros l a d _ H Hd. eapply evolves_trans; [apply Qok_eq | exact H | apply ev_jail; [apply Qok_eq | assumption]].
+Qed.
+
+Lemma end_block_evolves s R : evolves eq R (work s) (work (end_block s).1).
+Proof.
+  destruct (end_block s) as [s' r] eqn:E; simpl.
+  apply end_block_inv in E as [[-> _] | (ups & l3 & _ & [HD HF] & _ & _ & Hun & _)]; [apply evolves_refl, Qok_eq|].
+  rewrite unfreeze_unfold in Hun. apply unfreeze_list_spec in Hun as (HD' & HF' & _).
+  apply ev_shrink; [apply Qok_eq | congruence|].
+  intros k x. rewrite HF'. destruct (existsb _ _); [discriminate | rewrite HF; auto].
+Qed.
+
+(* ================================================================== 7. (B1) uniqueness of hashes under fresh staking hashes *)
+Lemma hu_pt_add l l' a d st :
+  hu_pt l →
+  (dels l !! a = Some d ∨ (dels l !! a = None ∧ d_stakes d = [])) →
+  (∀ a0 d0 s0, dels l !! a0 = Some d0 → s0 ∈ d_stakes d0 → s_hash s0 ≠ s_hash st) →
+  (∀ k x, frozen l !! k = Some x → k ≠ s_hash st) →
+  dels l' = <[a := add_stake d st]> (dels l) → frozen l' = frozen l → hu_pt l'.
+Proof.
+  intros (U1 & U2 & U3 & U4) Hd F1 F2 HD HF.
+  assert (Hel : ∀ a' d' s', dels l' !! a' = Some d' → s' ∈ d_stakes d' →
+            (s' = st ∧ a' = a) ∨ (∃ dz, dels l !! a' = Some dz ∧ s' ∈ d_stakes dz)).
+  { intros a' d' s' Hd' Hs'. rewrite HD in Hd'. destruct (decide (a' = a)) as [->|Hne].
+    - rewrite lookup_insert in Hd'. injection Hd' as <-. simpl in Hs'.
+      apply elem_of_app in Hs' as [Hs' | Hs'].
+      + destruct Hd as [Hd | [_ Hd]]; [right; eauto | rewrite Hd in Hs'; inversion Hs'].
+      + apply elem_of_list_singleton in Hs'. left; auto.
+    - rewrite lookup_insert_ne in Hd' by congruence. right; eauto. }
+  split; [|split; [|split]].
+  - intros a' d' Hd'. rewrite HD in Hd'. destruct (decide (a' = a)) as [->|Hne].
+    + rewrite lookup_insert in Hd'. injection Hd' as <-. simpl. rewrite fmap_app. apply NoDup_app. split; [|split].
+      * destruct Hd as [Hd | [_ Hd]]; [eapply U1; exact Hd | rewrite Hd; constructor].
+      * intros h Hh Hh'. simpl in Hh'. apply elem_of_list_singleton in Hh'. subst h.
+        apply elem_of_list_fmap in Hh as (s0 & Heq & Hs0).
+        destruct Hd as [Hd | [_ Hd]]; [eapply F1; eauto | rewrite Hd in Hs0; inversion Hs0].
+      * simpl. apply NoDup_singleton.
+    + rewrite lookup_insert_ne in Hd' by congruence. eapply U1; exact Hd'.
+  - intros a1 a2 d1 d2 s1 s2 Hd1 Hd2 Hs1 Hs2 Heq.
+    destruct (Hel _ _ _ Hd1 Hs1) as [[-> ->] | (dz1 & Hz1 & Hin1)];
+      destruct (Hel _ _ _ Hd2 Hs2) as [[-> ->] | (dz2 & Hz2 & Hin2)].
+    + reflexivity.
+    + exfalso. eapply F1; [exact Hz2 | exact Hin2 | congruence].
+    + exfalso. eapply F1; [exact Hz1 | exact Hin1 | congruence].
+    + eapply (U2 a1 a2 dz1 dz2 s1 s2); eassumption.
+  - intros a' d' s' k x Hd' Hs' Hk. rewrite HF in Hk.
+    destruct (Hel _ _ _ Hd' Hs') as [[-> ->] | (dz & Hz & Hin)].
+    + intros Heq. eapply F2; [exact Hk | congruence].
+    + eapply U3; eassumption.
+  - intros k x Hk. rewrite HF in Hk. eapply U4; exact Hk.
+Qed.
+
+(* the hypothesis on a run: a staking transaction that gets executed carries a hash no bonded
+   or unbonding stake has (transaction hashes cover sender and nonce) *)
+Definition fresh_tx (s : state) (t : tx) : Prop :=
+  t_type t = TRX_STAKING → dels (work (deliver s t).1) ≠ dels (work s) →
+  ∀ st, st ∈ bonded_stakes (work s) ++ frozen_stakes (work s) → s_hash st ≠ t_hash t.
+
+Fixpoint fresh_run (s : state) (ops : list sop) : Prop :=
+  match ops with
+  | [] => True
+  | o :: r => match o with SDeliver t => fresh_tx s t | _ => True end ∧ fresh_run (sstep s o) r
+  end.
+
+(* executable check, for the examples *)
+Definition fresh_txb (s : state) (t : tx) : bool :=
+  forallb (λ st, negb (s_hash st =? t_hash t)%N) (bonded_stakes (work s) ++ frozen_stakes (work s)).
+Fixpoint fresh_runb (s : state) (ops : list sop) : bool :=
+  match ops with
+  | [] => true
+  | o :: r => match o with SDeliver t => fresh_txb s t | _ => true end && fresh_runb (sstep s o) r
+  end.
+Lemma fresh_txb_ok s t : fresh_txb s t = true → fresh_tx s t.
+Proof.
+  unfold fresh_txb, fresh_tx. intros H _ _ st Hin. rewrite forallb_forall in H.
+  apply elem_of_list_In, H in Hin. apply negb_true_iff, N.eqb_neq in Hin. exact Hin.
+Qed.
+Lemma fresh_runb_ok ops : ∀ s, fresh_runb s ops = true → fresh_run s ops.
+Proof.
+  induction ops as [|o ops IH]; intros s; simpl; [auto|].
+  intros H. apply andb_true_iff in H as [H1 H2]. split; [|apply IH; assumption].
+  destruct o; auto. apply fresh_txb_ok; assumption.
+Qed.
+
+Lemma deliver_hashes_unique s t : hashes_unique (work s) → fresh_tx s t → hashes_unique (work (deliver s t).1).
+Proof.
+  rewrite !hashes_unique_pt. intros Hu Hfresh. unfold fresh_tx in Hfresh.
+  assert (E : deliver s t = ((deliver s t).1, (deliver s t).2)) by (destruct (deliver s t); reflexivity).
+  set (s' := (deliver s t).1) in *. set (r := (deliver s t).2) in *. clearbody s' r.
+  apply deliver_moves in E as [Hev | (Hty & d & Hd & HD & HF)].
+  { eapply hu_pt_evolves; [apply Qok_eq | exact Hu | exact Hev]. }
+  assert (Hne : dels (work s') ≠ dels (work s)).
+  { rewrite HD. intros Heq.
+    assert (Hl : dels (work s) !! t_to t = Some (add_stake d (stake_of_tx t (b_height (bctx s)) (power_of (t_amount t)))))
+      by (rewrite <- Heq; apply lookup_insert).
+    destruct Hd as [Hd | (Hd & _)]; [|congruence].
+    rewrite Hd in Hl. injection Hl as Hl. apply (f_equal (λ x, length (d_stakes x))) in Hl.
+    simpl in Hl. rewrite app_length in Hl. simpl in Hl. lia. }
+  specialize (Hfresh Hty Hne).
+  eapply (hu_pt_add (work s) (work s') (t_to t) d); [exact Hu | | | | exact HD | exact HF].
+  - destruct Hd as [Hd | (Hd & _ & ->)]; [left; assumption | right; split; [assumption | reflexivity]].
+  - intros a0 d0 s0 Hd0 Hs0. apply Hfresh. apply elem_of_app. left. apply elem_of_bonded. eauto.
+  - intros k x Hk Heq. destruct Hu as (_ & _ & _ & U4). apply (Hfresh x).
+    + apply elem_of_app. right. apply elem_of_frozen. eauto.
+    + rewrite (U4 _ _ Hk). exact Heq.
+Qed.
+
+Lemma sstep_hashes_unique s o : hashes_unique (work s) →
+  match o with SDeliver t => fresh_tx s t | _ => True end → hashes_unique (work (sstep s o)).
+Proof.
+  intros Hu Hf. destruct o as [hd|t| |]; simpl.
+  - apply hashes_unique_pt. eapply hu_pt_evolves; [apply Qok_sim | apply hashes_unique_pt, Hu | apply begin_block_evolves].
+  - apply deliver_hashes_unique; assumption.
+  - apply hashes_unique_pt. eapply hu_pt_evolves; [apply Qok_eq | apply hashes_unique_pt, Hu | apply (end_block_evolves s 0)].
+  - exact Hu.
+Qed.
+
+Theorem hashes_unique_run ops : ∀ s, hashes_unique (work s) → fresh_run s ops → hashes_unique (work (srun s ops)).
+Proof.
+  unfold srun. induction ops as [|o ops IH]; intros s Hu Hf; simpl; [exact Hu|].
+  destruct Hf as [Hf1 Hf2]. apply IH; [apply sstep_hashes_unique; assumption | exact Hf2].
+Qed.
+Print Assumptions hashes_unique_run.
+
+(* it holds from genesis when there is at most one genesis validator (all genesis stakes carry hash 0) *)
+Lemma init_chain_hashes_unique g : (length (gen_validators g) ≤ 1)%nat → hashes_unique (work (init_chain g)).
+Proof.
+  intros Hlen. apply hashes_unique_pt.
+  destruct (init_chain_pre_sf g) as (l2 & [HD HF] & ->).
+  assert (H2 : hu_pt l2).
+  { unfold hu_pt. rewrite HD, HF. simpl. repeat split; intros *; rewrite lookup_empty; discriminate. }
+  destruct (gen_validators g) as [|v [|v' vs]]; simpl in *; [exact H2 | | lia].
+  eapply (hu_pt_add l2 _ v.1 (new_delegatee v.1) (genesis_stake v)); [exact H2 | | | | reflexivity | reflexivity].
+  - right. split; [rewrite HD; apply lookup_empty | reflexivity].
+  - intros a0 d0 s0 Hd0. rewrite HD in Hd0. simpl in Hd0. rewrite lookup_empty in Hd0. discriminate.
+  - intros k x Hk. rewrite HF in Hk. simpl in Hk. rewrite lookup_empty in Hk. discriminate.
+Qed.
+
+Theorem hashes_unique_reachable g ops :
+  (length (gen_validators g) ≤ 1)%nat → fresh_run (init_chain g) ops →
+  hashes_unique (work (srun (init_chain g) ops)).
+Proof. intros Hlen Hf. apply hashes_unique_run; [apply init_chain_hashes_unique; assumption | exact Hf]. Qed.
+Print Assumptions hashes_unique_reachable.
+
+(* ================================================================== 8. (B3) a stake's fields while it stays *)
+Lemma hu_pt_same_hash l x y : hu_pt l → x ∈ bonded_stakes l → y ∈ bonded_stakes l → s_hash x = s_hash y → x = y.
+Proof.
+  intros (U1 & U2 & _) Hx Hy Heq.
+  apply elem_of_bonded in Hx as (a1 & d1 & Hd1 & Hx). apply elem_of_bonded in Hy as (a2 & d2 & Hd2 & Hy).
+  assert (a1 = a2) by (eapply (U2 a1 a2 d1 d2 x y); eassumption). subst a2.
+  assert (d1 = d2) by congruence. subst d2.
+  eapply NoDup_hash_inj; [eapply U1; exact Hd1 | assumption | assumption | assumption].
+Qed.
+
+Lemma evolves_fate_lists Q R l l' st : Qok Q → hu_pt l → evolves Q R l l' → st ∈ bonded_stakes l →
+  (∀ st', st' ∈ bonded_stakes l' → s_hash st' = s_hash st → Q st st') ∧
+  (∀ st', st' ∈ frozen_stakes l' → s_hash st' = s_hash st → ∃ s1, Q st s1 ∧ st' = with_refund R s1).
+Proof.
+  intros HQ Hu Hev Hst. pose proof (hu_pt_evolves _ _ _ _ HQ Hu Hev) as (_ & _ & _ & U4').
+  apply elem_of_bonded in Hst as (a & d & Hd & Hst).
+  destruct (evolves_fate Q R l l' a d st HQ Hu Hev Hd Hst) as [F1 F2]. split.
+  - intros st' Hin Heq. apply elem_of_bonded in Hin as (a' & d' & Hd' & Hin). eapply F1; eassumption.
+  - intros st' Hin Heq. apply elem_of_frozen in Hin as (k & Hk). apply (F2 k st' Hk).
+    rewrite <- (U4' _ _ Hk). exact Heq.
+Qed.
+
+(* every operation except a BeginBlock carrying evidence leaves all fields but the refund height *)
+Theorem stake_unchanged_step s o st :
+  hashes_unique (work s) →
+  match o with SBegin hd => h_evidence hd = [] | SDeliver t => fresh_tx s t | _ => True end →
+  st ∈ bonded_stakes (work s) →
+  (∀ st', st' ∈ bonded_stakes (work (sstep s o)) → s_hash st' = s_hash st → st' = st) ∧
+  (∀ st', st' ∈ frozen_stakes (work (sstep s o)) → s_hash st' = s_hash st → st' = with_refund (s_refund st') st).
+Proof.
+  intros Hu Ho Hst. apply hashes_unique_pt in Hu.
+  assert (Hfrom_ev : ∀ R l', evolves eq R (work s) l' →
+     (∀ st', st' ∈ bonded_stakes l' → s_hash st' = s_hash st → st' = st) ∧
+     (∀ st', st' ∈ frozen_stakes l' → s_hash st' = s_hash st → st' = with_refund (s_refund st') st)).
+  { intros R l' Hev. destruct (evolves_fate_lists eq R _ _ st Qok_eq Hu Hev Hst) as [F1 F2]. split.
+    - intros st' Hin Heq. symmetry. apply F1; assumption.
+    - intros st' Hin Heq. destruct (F2 st' Hin Heq) as (s1 & <- & ->). reflexivity. }
+  destruct o as [hd|t| |]; simpl.
+  - eapply Hfrom_ev. apply begin_block_evolves_noevidence; assumption.
+  - unfold fresh_tx in Ho.
+    assert (E : deliver s t = ((deliver s t).1, (deliver s t).2)) by (destruct (deliver s t); reflexivity).
+    set (s' := (deliver s t).1) in *. set (r := (deliver s t).2) in *. clearbody s' r.
+    apply deliver_moves in E as [Hev | (Hty & d & Hd & HD & HF)]; [eapply Hfrom_ev; exact Hev|].
+    split.
+    + intros st' Hin Heq. apply elem_of_bonded in Hin as (a' & d' & Hd' & Hin). rewrite HD in Hd'.
+      assert (Hold : st' ∈ bonded_stakes (work s) → st' = st).
+      { intros Hb. eapply hu_pt_same_hash; eassumption. }
+      destruct (decide (a' = t_to t)) as [->|Hne].
+      * rewrite lookup_insert in Hd'. injection Hd' as <-. simpl in Hin.
+        apply elem_of_app in Hin as [Hin | Hin].
+        -- destruct Hd as [Hd | (_ & _ & ->)]; [|inversion Hin]. apply Hold, elem_of_bonded. eauto.
+        -- apply elem_of_list_singleton in Hin. subst st'. exfalso.
+           assert (Hne : dels (work s') ≠ dels (work s)).
+           { intros Heq'. apply elem_of_bonded in Hst as (a0 & d0 & Hd0 & Hst0).
+             rewrite HD in Heq'.
+             assert (Hl : dels (work s) !! t_to t = Some (add_stake d (stake_of_tx t (b_height (bctx s)) (power_of (t_amount t)))))
+               by (rewrite <- Heq'; apply lookup_insert).
+             destruct Hd as [Hd | (Hd & _)]; [|congruence].
+             rewrite Hd in Hl. injection Hl as Hl. apply (f_equal (λ x, length (d_stakes x))) in Hl.
+             simpl in Hl. rewrite app_length in Hl. simpl in Hl. lia. }
+           apply (Ho Hty Hne st); [apply elem_of_app; left; assumption | symmetry; exact Heq].
+      * rewrite lookup_insert_ne in Hd' by congruence. apply Hold, elem_of_bonded. eauto.
+    + intros st' Hin Heq. exfalso. apply elem_of_frozen in Hin as (k & Hk). rewrite HF in Hk.
+      destruct Hu as (_ & _ & U3 & U4). apply elem_of_bonded in Hst as (a0 & d0 & Hd0 & Hst0).
+      apply (U3 a0 d0 st k st' Hd0 Hst0 Hk). rewrite <- Heq. apply U4; assumption.
+  - eapply Hfrom_ev. apply (end_block_evolves s 0).
+  - eapply Hfrom_ev. apply (evolves_refl eq 0), Qok_eq.
+Qed.
+Print Assumptions stake_unchanged_step.
+
+(* BeginBlock in general: owner, target, hash and start height stay; only the power may be cut
+   (slashing of the delegatees named in the evidence) *)
+Theorem stake_begin_block_fields s hd st :
+  hashes_unique (work s) → st ∈ bonded_stakes (work s) →
+  (∀ st', st' ∈ bonded_stakes (work (begin_block s hd).1) → s_hash st' = s_hash st → stake_sim st st') ∧
+  (∀ st', st' ∈ frozen_stakes (work (begin_block s hd).1) → s_hash st' = s_hash st →
+     s_from st' = s_from st ∧ s_to st' = s_to st ∧ s_start st' = s_start st ∧
+     s_refund st' = h_height hd + g_lazyRewardBlocks (gparams s)).
+Proof.
+  intros Hu Hst. apply hashes_unique_pt in Hu.
+  destruct (evolves_fate_lists stake_sim _ _ _ st Qok_sim Hu (begin_block_evolves s hd) Hst) as [F1 F2]. split.
+  - exact F1.
+  - intros st' Hin Heq. destruct (F2 st' Hin Heq) as (s1 & (H1 & H2 & H3 & H4 & H5) & ->). simpl.
+    unfold block_release_height. auto.
+Qed.
+Print Assumptions stake_begin_block_fields.
+
+(* slashing only lowers a power (ratio between 0 and 100, as params_ok demands) *)
+Definition stake_cut (x y : stake) : Prop := stake_sim x y ∧ (0 ≤ s_power x → 0 ≤ s_power y ≤ s_power x).
+Lemma Qok_cut : Qok stake_cut.
+Proof.
+  split.
+  - intros x. split; [apply (Q_refl _ Qok_sim) | lia].
+  - intros x y z [H1 H2] [H3 H4]. split; [eapply (Q_trans _ Qok_sim); eassumption | lia].
+  - intros x y [H _]. apply (Q_hash _ Qok_sim); assumption.
+Qed.
+
+Lemma slash_amount_bounds p ratio : 0 ≤ ratio ≤ 100 → 0 ≤ p → 0 ≤ p - (p * ratio) `quot` 100 ≤ p.
+Proof.
+  intros Hr Hp. rewrite Z.quot_div_nonneg by nia.
+  assert (0 ≤ p * ratio / 100) by (apply Z.div_pos; nia).
+  assert (p * ratio / 100 ≤ p) by (apply Z.div_le_upper_bound; nia). lia.
+Qed.
+
+Lemma begin_block_evolves_cut s hd : 0 ≤ g_slashRatio (gparams s) ≤ 100 →
+  evolves stake_cut (block_release_height s hd) (work s) (work (begin_block s hd).1).
+Proof.
+  intros Hr. apply (begin_block_ind (λ l, evolves stake_cut (block_release_height s hd) (work s) l)).
+  - intros l l' Hsf H. eapply evolves_sf; [apply same_sf_refl | exact Hsf | exact H].
+  - apply evolves_refl, Qok_cut.
+  - intros l a d _ H Hd. eapply evolves_trans; [apply Qok_cut | exact H |].
+    apply ev_slash; [apply Qok_cut | | assumption].
+    intros x. split; [repeat split | simpl; apply slash_amount_bounds; assumption].
+  - intros l a d m H Hd. eapply evolves_trans; [apply Qok_cut | exact H | apply ev_marks; [apply Qok_cut | assumption]].
+  - intros l a d _ H Hd. eapply evolves_trans; [apply Qok_cut | exact H | apply ev_jail; [apply Qok_cut | assumption]].
+Qed.
+
+Theorem stake_begin_block_power s hd st :
+  hashes_unique (work s) → 0 ≤ g_slashRatio (gparams s) ≤ 100 → st ∈ bonded_stakes (work s) → 0 ≤ s_power st →
+  ∀ st', st' ∈ bonded_stakes (work (begin_block s hd).1) ++ frozen_stakes (work (begin_block s hd).1) →
+    s_hash st' = s_hash st → 0 ≤ s_power st' ≤ s_power st.
+Proof.
+  intros Hu Hr Hst Hp st' Hin Heq. apply hashes_unique_pt in Hu.
+  destruct (evolves_fate_lists stake_cut _ _ _ st Qok_cut Hu (begin_block_evolves_cut s hd Hr) Hst) as [F1 F2].
+  apply elem_of_app in Hin as [Hin | Hin].
+  - destruct (F1 st' Hin Heq) as [_ H]. auto.
+  - destruct (F2 st' Hin Heq) as (s1 & [_ H] & ->). simpl. auto.
+Qed.
+Print Assumptions stake_begin_block_power.
+
+(* ================================================================== 9. (C2) the unbonding period is fixed at release *)
+(* where an unbonding entry comes from: it was there before, or it is a bonded stake released by this
+   very operation, stamped with [current height + lazyRewardBlocks] of the parameters in force *)
+Theorem release_stamps_refund_height s t s' r k x :
+  deliver s t = (s', r) → frozen (work s') !! k = Some x →
+  frozen (work s) !! k = Some x ∨
+  ∃ st, st ∈ bonded_stakes (work s) ∧ k = s_hash st ∧
+        x = with_refund (b_height (bctx s) + g_lazyRewardBlocks (gparams s)) st.
+Proof.
+  intros Hdel Hk. apply deliver_moves in Hdel as [[_ B] | (_ & _ & _ & _ & HF)].
+  - destruct (B _ _ Hk) as [Hold | (a & d & s0 & s1 & Hd & Hs0 & <- & -> & -> & _)]; [left; assumption|].
+    right. exists s0. split; [apply elem_of_bonded; eauto | split; reflexivity].
+  - left. rewrite <- HF. exact Hk.
+Qed.
+Print Assumptions release_stamps_refund_height.
+
+Theorem force_release_stamps_refund_height s hd k x :
+  frozen (work (begin_block s hd).1) !! k = Some x →
+  frozen (work s) !! k = Some x ∨
+  ∃ st s1, st ∈ bonded_stakes (work s) ∧ k = s_hash st ∧ stake_sim st s1 ∧
+           x = with_refund (h_height hd + g_lazyRewardBlocks (gparams s)) s1.
+Proof.
+  intros Hk. destruct (begin_block_evolves s hd) as [_ B].
+  destruct (B _ _ Hk) as [Hold | (a & d & s0 & s1 & Hd & Hs0 & Hq & -> & -> & _)]; [left; assumption|].
+  right. exists s0, s1. split; [apply elem_of_bonded; eauto|]. auto.
+Qed.
+Print Assumptions force_release_stamps_refund_height.
+
+(* an entry of the unbonding ledger is not touched by deliveries and BeginBlock; an entry can be
+   lost only by a collision of hashes, which [hashes_unique] excludes *)
+Definition keeps (l l' : ledgers) : Prop :=
+  ∀ k x, frozen l !! k = Some x → frozen l' !! k = Some x ∨ ∃ a d s0, dels l !! a = Some d ∧ s0 ∈ d_stakes d ∧ s_hash s0 = k.
+
+Lemma freeze_all_keeps F R ss k x : F !! k = Some x → freeze_all F R ss !! k = Some x ∨ ∃ s0, s0 ∈ ss ∧ s_hash s0 = k.
+Proof.
+  intros HF. destruct (decide (k ∈ s_hash <$> ss)) as [Hin | Hnin].
+  - right. apply elem_of_list_fmap in Hin as (s0 & -> & Hin). eauto.
+  - left. rewrite freeze_all_keep; [assumption|]. intros st Hst Heq. apply Hnin. rewrite <- Heq. apply elem_hash_fmap; assumption.
+Qed.
+
+Lemma unstake_result_keeps D F a d hs s0 R k x : find_stake hs (d_stakes d) = Some s0 → F !! k = Some x →
+  (unstake_result D F a d hs s0 R).2 !! k = Some x ∨ ∃ s1, s1 ∈ d_stakes d ∧ s_hash s1 = k.
+Proof.
+  intros Hf HF. destruct (find_stake_spec _ _ _ Hf) as [Hin0 Hh0].
+  destruct (decide (k = s_hash s0)) as [->|Hne]; [right; eauto|].
+  assert (H1 : <[s_hash s0 := with_refund R s0]> F !! k = Some x) by (rewrite lookup_insert_ne by congruence; assumption).
+  unfold unstake_result; cbv zeta; simpl. destruct (_ =? 0); [|left; assumption].
+  destruct (freeze_all_keeps _ R (d_stakes (del_stake d hs)) _ _ H1) as [H | (s1 & Hs1 & Hh1)]; [left; assumption|].
+  right. exists s1. split; [|assumption]. unfold del_stake in Hs1. rewrite Hf in Hs1. simpl in Hs1.
+  eapply sublist_elem; [apply remove_stake_sublist | exact Hs1].
+Qed.
+
+Lemma deliver_keeps s t : keeps (work s) (work (deliver s t).1).
+Proof.
+  destruct (deliver s t) as [s' r] eqn:E. simpl. intros k x Hk.
+  apply deliver_frame in E as (_ & _ & _ & _ & _ & [[_ HF] | (s2 & l & l' & _ & _ & _ & [HD HF] & Hex & [_ HF'])]).
+  { left. rewrite HF. assumption. }
+  apply stake_execute_inv in Hex as [(_ & _ & _ & _ & HFl) | [(_ & d & hs & b & s0 & Hd & _ & Hf & _ & _ & HFl) | (_ & _ & _ & HFl)]].
+  - left. rewrite HF', HFl, HF. assumption.
+  - rewrite HF', HFl. rewrite <- HF in Hk.
+    destruct (unstake_result_keeps (dels l) (frozen l) (t_to t) d hs s0 (release_height s2) k x Hf Hk) as [H | (s1 & Hs1 & Hh1)];
+      [left; assumption|].
+    right. exists (t_to t), d, s1. rewrite <- HD. auto.
+  - left. rewrite HF', HFl, HF. assumption.
+Qed.
+
+Lemma begin_block_keeps s hd : keeps (work s) (work (begin_block s hd).1).
+Proof.
+  pose (P := λ l, evolves stake_sim (block_release_height s hd) (work s) l ∧ keeps (work s) l).
+  assert (Htrans : ∀ l l', P l → evolves stake_sim (block_release_height s hd) l l' →
+     (∀ k x, frozen l !! k = Some x → frozen l' !! k = Some x ∨ ∃ a d s0, dels l !! a = Some d ∧ s0 ∈ d_stakes d ∧ s_hash s0 = k) → P l').
+  { intros l l' [Hev Hk] Hev' Hk'. split; [eapply evolves_trans; [apply Qok_sim | exact Hev | exact Hev']|].
+    intros k x H0. destruct (Hk _ _ H0) as [H1 | H1]; [|right; assumption].
+    destruct (Hk' _ _ H1) as [H2 | (a & d & s0 & Hd & Hs0 & Hh)]; [left; assumption|].
+    right. destruct Hev as [A _]. destruct (A _ _ Hd) as (dz & Hdz & Hsub & _).
+    destruct (hash_in_sub _ _ _ Hsub Hs0) as (sz & Hsz & Hhz). exists a, dz, sz. split; [assumption|]. split; [assumption | congruence]. }
+  enough (HP : P (work (begin_block s hd).1)) by (exact (proj2 HP)).
+  apply (begin_block_ind P).
+  - intros l l' [HD HF] [Hev Hk]. split; [eapply evolves_sf; [apply same_sf_refl | split; eassumption | exact Hev]|].
+    intros k x H0. rewrite HF. auto.
+  - split; [apply evolves_refl, Qok_sim | intros k x H; left; exact H].
+  - intros l a d _ HP Hd. eapply Htrans; [exact HP | | intros k x H; left; exact H].
+    apply ev_slash; [apply Qok_sim | intros x; repeat split | assumption].
+  - intros l a d m HP Hd. eapply Htrans; [exact HP | apply ev_marks; [apply Qok_sim | assumption] | intros k x H; left; exact H].
+  - intros l a d _ HP Hd. eapply Htrans; [exact HP | apply ev_jail; [apply Qok_sim | assumption] |].
+    intros k x H. unfold jail. rewrite frozen_set_dels, frozen_set_frozen.
+    destruct (freeze_all_keeps _ (block_release_height s hd) (d_stakes d) _ _ H) as [H' | (s0 & Hs0 & Hh)]; [left; assumption|].
+    right. exists a, d, s0. auto.
+Qed.
+
+Theorem frozen_untouched s o k x :
+  hashes_unique (work s) → o ≠ SEnd → frozen (work s) !! k = Some x → frozen (work (sstep s o)) !! k = Some x.
+Proof.
+  intros Hu Ho Hk. apply hashes_unique_pt in Hu. destruct Hu as (_ & _ & U3 & _).
+  assert (Hfrom : ∀ l', keeps (work s) l' → frozen l' !! k = Some x).
+  { intros l' Hkeep. destruct (Hkeep _ _ Hk) as [H | (a & d & s0 & Hd & Hs0 & Hh)]; [assumption|].
+    exfalso. eapply U3; eassumption. }
+  destruct o as [hd|t| |]; simpl.
+  - apply Hfrom, begin_block_keeps.
+  - apply Hfrom, deliver_keeps.
+  - contradiction.
+  - assumption.
+Qed.
+Print Assumptions frozen_untouched.
+
+(* EndBlock only deletes from the unbonding ledger; parameters changing later cannot reach an entry *)
+Theorem end_block_frozen_only_deletes s k x :
+  frozen (work (end_block s).1) !! k = Some x → frozen (work s) !! k = Some x.
+Proof.
+  intros Hk. destruct (end_block s) as [s' r] eqn:E; simpl in *.
+  apply end_block_inv in E as [[-> _] | (ups & l3 & _ & [HD HF] & _ & _ & Hun & _)]; [assumption|].
+  rewrite unfreeze_unfold in Hun. apply unfreeze_list_spec in Hun as (_ & HF' & _).
+  rewrite HF' in Hk. destruct (existsb _ _); [discriminate | rewrite HF in Hk; assumption].
+Qed.
+
+(* ================================================================== 10. (C3) the refund *)
+Lemma credit_fields x amt :
+  a_nonce (credit x amt) = a_nonce x ∧ a_code (credit x amt) = a_code x ∧
+  a_name (credit x amt) = a_name x ∧ a_doc (credit x amt) = a_doc x.
+Proof. repeat split. Qed.
+
+Lemma foldl_credit_fields amts : ∀ x,
+  a_nonce (foldl credit x amts) = a_nonce x ∧ a_code (foldl credit x amts) = a_code x ∧
+  a_name (foldl credit x amts) = a_name x ∧ a_doc (foldl credit x amts) = a_doc x.
+Proof.
+  induction amts as [|a amts IH]; intros x; simpl; [repeat split|].
+  destruct (IH (credit x a)) as (H1 & H2 & H3 & H4). simpl in *. auto.
+Qed.
+
+Lemma two256_pos : 0 < two256.
+Proof. Local Transparent two256. unfold two256. Local Opaque two256. apply Z.pow_pos_nonneg; lia. Qed.
+
+Lemma foldl_credit_bal_mod amts : ∀ x,
+  a_bal (foldl credit x amts) mod two256 = (a_bal x + sumZ amts) mod two256.
+Proof.
+  induction amts as [|a amts IH]; intros x; simpl; [f_equal; lia|].
+  rewrite IH. simpl. unfold add256, wrap256.
+  rewrite Zplus_mod_idemp_l. f_equal. lia.
+Qed.
+
+Lemma foldl_credit_bal amts x : 0 ≤ a_bal x < two256 →
+  a_bal (foldl credit x amts) = (a_bal x + sumZ amts) mod two256.
+Proof.
+  revert x. induction amts as [|a amts IH]; intros x Hx; simpl.
+  - rewrite Z.add_0_r, Z.mod_small by assumption. reflexivity.
+  - rewrite IH by (simpl; apply wrap256_range). simpl. unfold add256, wrap256.
+    rewrite Zplus_mod_idemp_l. f_equal. lia.
+Qed.
+
+Lemma refunds_to_perm h a (l k : list (hash * stake)) : l ≡ₚ k → sumZ (refunds_to h a l) = sumZ (refunds_to h a k).
+Proof.
+  assert (Hcons : ∀ x l, sumZ (refunds_to h a (x :: l)) =
+     (if matured h x && (s_from x.2 =? a)%N then power_to_amount (s_power x.2) else 0) + sumZ (refunds_to h a l)).
+  { intros x l0. unfold refunds_to. simpl. destruct (matured h x && _); reflexivity. }
+  induction 1 as [|x l k _ IH|x y l|l k m _ IH1 _ IH2].
+  - reflexivity.
+  - rewrite !Hcons, IH. reflexivity.
+  - rewrite !Hcons. lia.
+  - congruence.
+Qed.
+
+Lemma elem_of_sorted_items {A} (m : gmap N A) k x : (k, x) ∈ sorted_items m ↔ m !! k = Some x.
+Proof.
+  unfold sorted_items. rewrite merge_sort_Permutation. apply elem_of_map_to_list.
+Qed.
+
+Lemma matured_exists h (m : gmap hash stake) k :
+  existsb (λ kp : hash * stake, (kp.1 =? k)%N && matured h kp) (sorted_items m) = true ↔
+  ∃ st, m !! k = Some st ∧ s_refund st ≤ h.
+Proof.
+  rewrite existsb_exists. split.
+  - intros ([k' st] & Hin & Hb). apply andb_true_iff in Hb as [Hk Hm]. simpl in Hk. apply N.eqb_eq in Hk. subst k'.
+    apply elem_of_list_In, elem_of_sorted_items in Hin. exists st. split; [assumption|].
+    unfold matured in Hm. simpl in Hm. lia.
+  - intros (st & Hst & Hle). exists (k, st). split; [apply elem_of_list_In, elem_of_sorted_items; assumption|].
+    apply andb_true_iff. split; [apply N.eqb_refl | unfold matured; simpl; lia].
+Qed.
+
+(* the account EndBlock's refund loop starts from: the proposer has just received the block's fees *)
+Definition fee_credited (s : state) (a : addr) : account :=
+  match b_proposer (bctx s) with
+  | Some pa => if decide (pa = a) then
+                 if 0 <? sign256 (b_feesum (bctx s)) then credit (acct_of (work s) a) (b_feesum (bctx s))
+                 else acct_of (work s) a
+               else acct_of (work s) a
+  | None => acct_of (work s) a
+  end.
+
+(* total refunded to [a] at height [h] out of the committed unbonding ledger *)
+Definition refund_total (base : ledgers) (h : Z) (a : addr) : Z := sumZ (refunds_to h a (map_to_list (frozen base))).
+
+Theorem unfreeze_exact s s' ups :
+  end_block s = (s', Ok ups) →
+  let h := b_height (bctx s) in let base := base_of s in
+  (* matured entries of the committed ledger leave the unbonding ledger *)
+  (∀ k st, frozen base !! k = Some st → s_refund st ≤ h → frozen (work s') !! k = None) ∧
+  (* everything else stays, in particular what has not matured: never earlier *)
+  (∀ k, (∀ st, frozen base !! k = Some st → h < s_refund st) → frozen (work s') !! k = frozen (work s) !! k) ∧
+  (* each account receives exactly the amounts of the matured stakes it owns, once per entry *)
+  (∀ a, acct_of (work s') a = foldl credit (fee_credited s a) (refunds_to h a (sorted_items (frozen base)))) ∧
+  (* bonded stakes are not involved *)
+  dels (work s') = dels (work s).
+Proof.
+  intros E. cbv zeta.
+  apply end_block_inv in E as [[_ Hno] | (ups' & l3 & _ & [HD HF] & Hoth & Hprop & Hun & _)].
+  { destruct (Hno ups); reflexivity. }
+  rewrite unfreeze_unfold in Hun. apply unfreeze_list_spec in Hun as (HD' & HF' & HA').
+  split; [|split; [|split]].
+  - intros k st Hst Hle. rewrite HF'.
+    destruct (existsb _ _) eqn:Ex; [reflexivity|].
+    assert (Ht : existsb (λ kp : hash * stake, (kp.1 =? k)%N && matured (b_height (bctx s)) kp)
+                   (sorted_items (frozen (base_of s))) = true) by (apply matured_exists; eauto).
+    congruence.
+  - intros k Hk. rewrite HF'. destruct (existsb _ _) eqn:Ex; [|rewrite HF; reflexivity].
+    apply matured_exists in Ex as (st & Hst & Hle). specialize (Hk _ Hst). lia.
+  - intros a. rewrite HA'. f_equal. unfold fee_credited.
+    destruct (b_proposer (bctx s)) as [pa|] eqn:Ep.
+    + destruct (decide (pa = a)) as [->|Hne]; [apply Hprop; reflexivity | apply Hoth; congruence].
+    + apply Hoth. discriminate.
+  - congruence.
+Qed.
+Print Assumptions unfreeze_exact.
